@@ -8,7 +8,31 @@
        (change_customer_class / renege read it first), so TrackerInc2's per-event hypothesis is weakened to NextUnblW here and the
        two event lemmas are re-proved for it.
          event_step_naive_blocking2, run_many_naive_blocking2, naive_blocking_never_negative, inv2_b / inv2_b_sound, examples nb_*.
-   (B) NodeClassMatrix: see section B below. *)
+       Scope scope_nb (executable, Journey2r.scope2r): per node no pre-emptive Schedule, no pre-emptive capacitated slot, a slotted
+       node has neither reneging nor priority pre-emption; priority pre-emption of any kind (resume / restart / resample / reroute, the
+       latter only towards the exit or non-slotted nodes without reroute, NetworkRouting) only in configurations WITHOUT capacities
+       (nobody is ever blocked: excludes F-02a) and without class-change times.  All routers, reneging + jockeying, blocking,
+       non-pre-emptive schedules, slots, class change after service and while waiting are inside.  It is narrower than what
+       TrackerInc2's per-event theorem allows (reroute schedules; pre-emption together with capacities at nodes where nobody can be
+       blocked; pre-emption with class-change times): those regions are neither proved nor refuted here (what is missing: the
+       server / blocked-flag link SrvInv + PickOK of Journey2 in those regions).
+   (B) NodeClassMatrix (per-class counts), same scope.  cntc c s j = number of customers of node j whose previous_class is c (what
+       change_state_release subtracts); with TInvS (a customer that is not blocked has previous_class = customer_class) these are the
+       entries of TrackerInc2.cm_true (class_matrix_means).  Invariant InvB = Inv2 /\ TInvS (executable invb_b).
+         event_step_tinvs2 : TInvS is kept by every event (logic CT: the count of customers that are not blocked and have
+                             previous_class <> customer_class never increases);
+         event_step_class_matrix2, run_many_class_matrix2 (configurations without class-change times: FULL, no hypothesis on the run):
+             InvB is kept, every entry moves exactly as the calls say (Acc +1 at customer_class, Rel -1 at previous_class, Chg), and
+             whenever the tracker started on a matrix m0 does not raise, every entry that was right before the run is right after it;
+         event_step_class_matrix2_partial, run_many_class_matrix2_partial (with class-change times, the Chg call included): the same
+             under the per-event hypothesis CandQ1 (the candidate of a class change while waiting is a customer of its node;
+             executable candq1_run_b), which is NOT shown invariant (it needs a link between n_ncci, the queues and class_change_date);
+         not shown either: that the tracker does not raise (customer classes are indices of the matrix: stage 1's CR).
+       class_matrix_refuted_F02b: closed witness outside the scope (region of F-02b; new as a tracker finding): the tracker holds
+       (2, 0) for a node whose true counts are (0, 2).  No drift was found by computation for class change while waiting together with
+       priority pre-emption (all four options), reneging after a class change, blocking (60 events of a two-node network).
+       Method: TrackerInc2's frame logic calmN / measures cntb / Hoare logic hoB are ported twice by textual substitution: CP
+       (attribute previous_class, = ) and CT (attribute (customer_class, previous_class, is_blocked), <= , no calls). *)
 From Coq Require Import ZArith List Bool Lia Permutation.
 From RecordUpdate Require Import RecordUpdate.
 From CiwV Require Import Sx Prelude Routing Sched.
@@ -969,3 +993,1585 @@ Section BWalk3.
   Qed.
   Lemma hb_arrival_have_event : B0 [] [] (arrival_have_eventW cf).
   Proof. unfold arrival_have_eventW. hb using (apply hb_batch_loop). Qed.
+
+  (* ---------- one event ---------- *)
+  Lemma lift_state {A} e (o : option A) s a s1 : lift e o s = Ok (a, s1) -> s1 = s.
+  Proof. destruct o; unfold lift, ret, fail; intros H; [injection H as _ <-; reflexivity|discriminate]. Qed.
+  Lemma decide_between_inds l s i s1 : decide_between l s = Ok (i, s1) -> inds s1 = inds s.
+  Proof.
+    unfold decide_between. destruct l as [|a0 [|b0 r]]; [discriminate|intros H; unfold ret in H; injection H as _ <-; reflexivity|].
+    unfold choice_uniform, bind. destruct (draw_unif s) as [[u s0]| |] eqn:E; try discriminate.
+    unfold draw_unif in E. destruct (d_unif (dr s)); [discriminate|]. injection E as _ <-.
+    intros H. apply lift_state in H. rewrite H. reflexivity.
+  Qed.
+  (* change_customer_class overwrites previous_class with customer_class: nothing happens when they are equal *)
+  Lemma ccc_calm j i s a s1 : (forall x, find_ind i (inds s) = Some x -> i_cls x = i_pcls x) -> NoInt s ->
+    change_customer_class cf j i s = Ok (a, s1) -> NoInt s1 /\ forall i', pcl s1 i' = pcl s i'.
+  Proof.
+    intros Hc HN H. unfold change_customer_class in H.
+    apply bind_ok_inv in H as (nc & s2 & E & H). unfold ncfg_of in E. apply lift_state in E. rewrite E in H. clear E.
+    apply bind_ok_inv in H as (x & s3 & E3 & H). apply get_ind_some in E3 as [Es3 Hx]. rewrite Es3 in H. clear Es3.
+    destruct (nc_ccm nc) as [m|]; [|unfold ret in H; injection H as _ <-; split; [exact HN|reflexivity]].
+    apply bind_ok_inv in H as (row & s4 & E4 & H). apply lift_state in E4. rewrite E4 in H. clear E4.
+    apply bind_ok_inv in H as (k & s5 & E5 & H). destruct (cn_choice_weighted 8 row s k s5 HN E5) as [N5 B5].
+    cbv zeta in H. apply bind_ok_inv in H as (p' & s6 & E6 & H). apply lift_state in E6. rewrite E6 in H. clear E6.
+    match type of H with put_ind ?x' _ = _ =>
+      assert (Hid : i_id x' = i) by (cbn; exact (Conserve2.find_ind_id _ _ _ Hx));
+      assert (Hpc : i_pcls x' = i_pcls x) by (cbn; exact (Hc x Hx));
+      assert (Hk : pcl s5 i = Some (i_pcls x)) by (rewrite B5; unfold pcl; rewrite Hx; reflexivity);
+      destruct (cb_put_ind i (i_pcls x) x' Hid Hpc s5 a s1 Hk N5 H) as [N1 B1]
+    end.
+    split; [exact N1|]. intros i'. rewrite B1. apply B5.
+  Qed.
+
+  (* ---------- class change while waiting at a node without priority pre-emption ---------- *)
+  Lemma up_seq_upd_ind {Y} i f (m2 : M Y) s : up (upd_ind i f ;;; m2) s = (y <~ up (get_ind i) ;; up (put_ind (f y)) ;;~ up m2) s.
+  Proof.
+    unfold up, wbind, upd_ind, bind. destruct (get_ind i s) as [[y s1]| |]; [|reflexivity|reflexivity].
+    unfold put_ind, modify. destruct (m2 _) as [[b s2]| |]; reflexivity.
+  Qed.
+  (* the tracker call and the update of previous_class: customer i (previous_class pc0) is in a queue of node j *)
+  Lemma hb_cc_tail j i pc0 nc' fl : hoB p (inq i j) [(i, pc0)] fl fl z0
+    (emit (Chg j pc0 nc') ;;~ up (upd_ind i (fun y => y <| i_pcls := nc' |> <| i_pprio := i_prio y |>) ;;; decide_class_change cf j i)).
+  Proof.
+    eapply B_ext; [eapply B_emit_bind with (d2 := fun j0 => if j0 =? j then bz (p nc') - bz (p pc0) else 0)|].
+    - eapply hoB_eq; [intros s; symmetry; apply up_seq_upd_ind|].
+      apply B_get_ind_bind; intros y Hy.
+      eapply B_ext; [eapply B_put_ind_q_bind with (b0 := pc0) (j := j)|].
+      + right. left. f_equal. cbn. symmetry. exact Hy.
+      + intros sh [Hq Hoki]. split; [exact Hoki|]. destruct Hq as (t & Ht & Hin). exists t. split; [exact Ht|]. cbn. rewrite Hy. exact Hin.
+      + apply B_up; [solve [pka]|solve [cna]].
+      + intros j0. cbn. unfold z0. lia.
+    - intros j0. unfold catb, z0, cnode, cdb. cbn. rewrite (Z.eqb_sym j j0). destruct (j0 =? j); lia.
+  Qed.
+  Lemma preempt_victim_none j i s v s1 : (forall nc, nthZ (cf_nodes cf) (j - 1) = Some nc -> nc_preempt nc = 0) ->
+    preempt_victim cf j i s = Ok (v, s1) -> v = None /\ s1 = s.
+  Proof.
+    intros Hnp H. unfold preempt_victim in H. apply bind_ok_inv in H as (nc & s2 & E & H).
+    unfold ncfg_of in E. destruct (nthZ (cf_nodes cf) (j - 1)) as [nc0|] eqn:En; [|discriminate E].
+    unfold lift, ret in E. injection E as <- <-. rewrite (Hnp nc0 eq_refl) in H. change (0 =? 0) with true in H. cbv iota in H.
+    unfold ret in H. injection H as <- <-. auto.
+  Qed.
+  Lemma hb_ccww_ev j s nd a s' cs : WFx2 [] s -> NoInt s -> nthZ (nodes s) (j - 1) = Some nd ->
+    (forall i, hd_error (n_next_inds nd) = Some i -> In i (all_individuals nd)) ->
+    (forall nc, nthZ (cf_nodes cf) (j - 1) = Some nc -> nc_preempt nc = 0) ->
+    change_customer_class_while_waitingW cf j s = Ok (a, s', cs) ->
+    WFx2 [] s' /\ NoInt s' /\ forall j0, cntb p s' j0 - netb p j0 cs = cntb p s j0.
+  Proof.
+    intros HW HN Hnd HQ Hnp H. unfold change_customer_class_while_waitingW in H.
+    apply wbind_inv in H as (nd' & s1 & c1 & cs1 & E1 & H & ->). apply up_inv in E1 as [E1 ->].
+    apply get_node_spec in E1 as (-> & _ & Hnd'). rewrite Hnd in Hnd'. injection Hnd' as <-. cbn [app].
+    apply wbind_inv in H as (i & s2 & c2 & cs2 & E2 & H & ->). apply up_inv in E2 as [E2 ->]. cbn [app].
+    assert (Hi : hd_error (n_next_inds nd) = Some i).
+    { destruct (hd_error (n_next_inds nd)); [unfold lift, ret in E2; injection E2 as -> _; reflexivity|discriminate E2]. }
+    apply lift_state in E2. rewrite E2 in H. clear E2 s2.
+    apply wbind_inv in H as (x & s3 & c3 & cs3 & E3 & H & ->). apply up_inv in E3 as [E3 ->]. cbn [app].
+    apply get_ind_some in E3 as [Es3 Hx]. rewrite Es3 in H. clear Es3 s3.
+    apply wbind_inv in H as (nc' & s4 & c4 & cs4 & E4 & H & ->). apply up_inv in E4 as [E4 ->]. cbn [app].
+    apply lift_state in E4. rewrite E4 in H. clear E4 s4.
+    apply wbind_inv in H as (p' & s4b & c4b & cs4b & E4 & H & ->). apply up_inv in E4 as [E4 ->]. cbn [app].
+    apply lift_state in E4. rewrite E4 in H. clear E4 s4b.
+    apply wbind_inv in H as (u5 & s5 & c5 & cs5 & E5 & H & ->). apply up_inv in E5 as [E5 ->]. cbn [app].
+    unfold put_ind, modify in E5. injection E5 as _ <-.
+    set (x1 := x <| i_cls := nc' |> <| i_prio := p' |>) in *.
+    set (s5 := s <| inds := put_ind_l x1 (inds s) |>) in *.
+    pose proof (Conserve2.find_ind_id _ _ _ Hx) as Hxi.
+    assert (Es5 : shp s5 = shp s).
+    { unfold shp, s5. cbn. f_equal. apply put_ind_l_ids_in. change (i_id x1) with (i_id x). rewrite Hxi. exact (Conserve2.find_ind_In _ _ _ Hx). }
+    assert (B5 : forall i', pcl s5 i' = pcl s i').
+    { intros i'. unfold pcl, s5. cbn. rewrite find_put_l. change (i_id x1) with (i_id x). rewrite Hxi.
+      destruct (Z.eqb_spec i i') as [<-|]; [rewrite Hx; reflexivity|reflexivity]. }
+    assert (W5 : WFx2 [] s5) by (eapply WFx2_shape; [exact Es5|exact HW]).
+    assert (N5 : NoInt s5) by exact HN.
+    destruct (get_node_okn j s nd (WFx2_idx _ _ HW) Hnd) as [Hidn Hokn].
+    assert (Hq0 : inq i j (shp s5)).
+    { rewrite Es5. exists (nshape nd). split; [cbn [shp sh_ns]; rewrite nthZ_map, Hnd; reflexivity|exact (HQ i Hi)]. }
+    apply wbind_inv in H as (u6 & s6 & c6 & cs6 & E6 & H & ->).
+    assert (M6 : WFx2 [] s6 /\ NoInt s6 /\ (forall j0, cntb p s6 j0 - netb p j0 c6 = cntb p s5 j0) /\ (forall i', pcl s6 i' = pcl s5 i') /\ inq i j (shp s6)).
+    { destruct (negb (p' =? i_pprio x)).
+      2:{ unfold wret in E6. injection E6 as _ <- <-. split; [exact W5|]. split; [exact N5|]. split; [intros j0; unfold netb; cbn; lia|]. split; [reflexivity|exact Hq0]. }
+      apply wbind_inv in E6 as (q & s7 & c7 & cs7 & E7 & E6 & ->). apply up_inv in E7 as [E7 ->]. cbn [app] in *.
+      pose proof E7 as Hq. apply lift_state in E7. rewrite E7 in E6, Hq. clear E7 s7.
+      apply wbind_inv in E6 as (q' & s7b & c7b & cs7b & E7 & E6 & ->). apply up_inv in E7 as [E7 ->]. cbn [app] in *.
+      pose proof E7 as Hq'. apply lift_state in E7. rewrite E7 in E6, Hq'. clear E7 s7b.
+      cbv zeta in E6.
+      apply wbind_inv in E6 as (qn & s7c & c7c & cs7c & E7 & E6 & ->). apply up_inv in E7 as [E7 ->]. cbn [app] in *.
+      pose proof E7 as Hqn. apply lift_state in E7. rewrite E7 in E6, Hqn. clear E7 s7c.
+      assert (Lq : nthZ (n_queues nd) (i_pprio x) = Some q) by (destruct (nthZ (n_queues nd) (i_pprio x)); [unfold lift, ret in Hq; injection Hq as -> ; reflexivity|discriminate Hq]).
+      assert (Lq' : remove_first i q = Some q') by (destruct (remove_first i q); [unfold lift, ret in Hq'; injection Hq' as -> ; reflexivity|discriminate Hq']).
+      assert (Lqn : nthZ (updZ (n_queues nd) (i_pprio x) q') p' = Some qn).
+      { destruct (nthZ (updZ (n_queues nd) (i_pprio x) q') p'); [unfold lift, ret in Hqn; injection Hqn as -> ; reflexivity|discriminate Hqn]. }
+      clear Hq Hq' Hqn.
+      apply wbind_inv in E6 as (u8 & s8 & c8 & cs8 & E8 & E6 & ->).
+      set (nd2 := nd <| n_queues := updZ (updZ (n_queues nd) (i_pprio x) q') p' (qn ++ [i]) |>) in *.
+      assert (HS : forall sh, okn sh nd -> exists nd0, okn sh nd0 /\ n_id nd2 = n_id nd0 /\ n_pop nd2 = n_pop nd0 /\
+                                Permutation (concat (n_queues nd2)) (concat (n_queues nd0))).
+      { intros sh Hok. exists nd. split; [exact Hok|]. split; [reflexivity|]. split; [reflexivity|]. cbn.
+        destruct (nthZ_nat _ _ _ Lq) as (kp & Hkp & Hqk). rewrite Hkp, updZ_nat in *.
+        destruct (nthZ_nat _ _ _ Lqn) as (kn & Hkn & Hqnk). rewrite Hkn, updZ_nat.
+        rewrite (concat_upd_add _ _ _ (qn ++ [i]) i Hqnk); [|rewrite Permutation_app_comm; reflexivity].
+        eapply concat_upd_rm; [exact Hqk|]. apply remove_first_perm. exact Lq'. }
+      assert (Hok5 : okn (shp s5) nd) by (rewrite Es5; exact Hokn).
+      destruct (B_put_mv p (fun sh => okn sh nd) [] [] nd2 (NoInt_nth _ _ _ HN Hnd) HS s5 u8 s8 c8 Hok5
+                  (fun i0 b0 (H0 : In (i0, b0) []) => match H0 with end) W5 N5 E8) as (W8 & N8 & D8).
+      apply up_inv in E8 as [E8 ->]. unfold put_node, modify in E8. injection E8 as _ Es8.
+      assert (Hq8 : inq i j (shp s8)).
+      { rewrite <- Es8. exists (nshape nd2). split.
+        - change (nthZ (map nshape (updZ (nodes s) (n_id nd - 1) nd2)) (j - 1) = Some (nshape nd2)).
+          rewrite tk_updZ_map, Hidn. eapply tk_nthZ_updZ_eq. rewrite nthZ_map, Hnd. reflexivity.
+        - change (In i (concat (updZ (updZ (n_queues nd) (i_pprio x) q') p' (qn ++ [i])))).
+          apply in_concat. exists (qn ++ [i]). split; [|apply in_or_app; right; left; reflexivity].
+          eapply tk_nthZ_In. eapply tk_nthZ_updZ_eq. exact Lqn. }
+      assert (B8 : forall i', pcl s8 i' = pcl s5 i') by (intros i'; rewrite <- Es8; reflexivity).
+      assert (D8' : forall j0, cntb p s8 j0 - netb p j0 [] = cntb p s5 j0) by (intros j0; rewrite (D8 j0); unfold z0; lia).
+      destruct (negb (nd_inf nd) && (0 <? numo (n_c nd))).
+      2:{ unfold wret in E6. injection E6 as _ <- <-. split; [exact W8|]. split; [exact N8|]. split; [intros j0; cbn [app]; apply D8'|]. split; [exact B8|exact Hq8]. }
+      apply wbind_inv in E6 as (v & s9 & c9 & cs9 & E9 & E6 & ->). apply up_inv in E9 as [E9 ->]. cbn [app] in *.
+      destruct (preempt_victim_none j i s8 v s9 Hnp E9) as [-> ->].
+      unfold wret in E6. injection E6 as _ <- <-. split; [exact W8|]. split; [exact N8|]. split; [intros j0; cbn [app]; apply D8'|]. split; [exact B8|exact Hq8]. }
+    destruct M6 as (W6 & N6 & D6 & B6 & Hq6).
+    assert (HL6 : Lok [(i, i_pcls x)] s6).
+    { intros i0 b0 [Hq|[]]. injection Hq as <- <-. rewrite B6, B5. unfold pcl. rewrite Hx. reflexivity. }
+    destruct (hb_cc_tail j i (i_pcls x) nc' [] s6 a s' cs6 Hq6 HL6 W6 N6 H) as (A & B & D).
+    split; [exact A|split; [exact B|]]. intros j0. rewrite netb_app. specialize (D j0). specialize (D6 j0). unfold z0 in D.
+    rewrite (cntb_frame p s s5 (f_equal sh_ns Es5) B5) in D6. lia.
+  Qed.
+
+  (* the candidates of an end of service have previous_class = customer_class (they are not blocked: TInvS below) *)
+  Definition CandC (s : sim) : Prop :=
+    forall j nd, nthZ (nodes s) (j - 1) = Some nd -> n_next_type nd = 0 -> forall i x, In i (n_next_inds nd) -> find_ind i (inds s) = Some x -> i_cls x = i_pcls x.
+  (* the candidate of a class change while waiting is a customer of the node, and the node has no priority pre-emption *)
+  Definition CandQ (s : sim) : Prop := forall j nd, nthZ (nodes s) (j - 1) = Some nd -> n_next_type nd = 3 ->
+    (forall i, hd_error (n_next_inds nd) = Some i -> In i (all_individuals nd)) /\
+    (forall nc, nthZ (cf_nodes cf) (j - 1) = Some nc -> nc_preempt nc = 0).
+
+  Lemma hb_node_have_event j s a s' cs : CandC s -> CandQ s -> WFx2 [] s -> NoInt s -> node_have_eventW cf j s = Ok (a, s', cs) ->
+    WFx2 [] s' /\ NoInt s' /\ forall j0, cntb p s' j0 - netb p j0 cs = cntb p s j0.
+  Proof.
+    intros HC HN3 HW HN H. unfold node_have_eventW in H.
+    apply wbind_inv in H as (nd & s1 & c1 & cs1 & E1 & H & ->). apply up_inv in E1 as [E1 ->].
+    apply get_node_spec in E1 as (-> & Hj & Hnd). cbv zeta in H. cbn [app].
+    assert (Fin : forall (m : W unit), hoB p KT [] [] [] z0 m -> m s = Ok (a, s', cs1) ->
+                  WFx2 [] s' /\ NoInt s' /\ forall j0, cntb p s' j0 - netb p j0 cs1 = cntb p s j0).
+    { intros m Hm E. destruct (Hm s a s' cs1 I (fun i0 b0 (H0 : In (i0, b0) []) => match H0 with end) HW HN E) as (A & B & D).
+      split; [exact A|split; [exact B|]]. intros j0. rewrite (D j0). unfold z0. lia. }
+    destruct (n_next_type nd =? 0) eqn:E0.
+    { apply Z.eqb_eq in E0. unfold finish_serviceW in H.
+      apply wbind_inv in H as (nd' & s2 & c2 & cs2 & E2 & H & ->). apply up_inv in E2 as [E2 ->].
+      apply get_node_spec in E2 as (-> & _ & Hnd'). rewrite Hnd in Hnd'. injection Hnd' as <-.
+      apply wbind_inv in H as (i & s3 & c3 & cs3 & E3 & H & ->). apply up_inv in E3 as [E3 ->]. cbn [app].
+      pose proof (decide_between_In _ _ _ _ E3) as Hin.
+      destruct (frame_step _ [] s i s3 (pk_decide_between _) (cn_decide_between _) HW HN E3) as (Es & W3 & N3 & B3).
+      rewrite fs_tail_split in H.
+      apply wbind_inv in H as (a4 & s4 & c4 & cs4 & E4 & H & ->). apply up_inv in E4 as [E4 ->]. cbn [app].
+      assert (Hc3 : forall x, find_ind i (inds s3) = Some x -> i_cls x = i_pcls x).
+      { rewrite (decide_between_inds _ _ _ _ E3). intros x Hx. exact (HC j nd Hnd E0 i x Hin Hx). }
+      destruct (ccc_calm j i s3 a4 s4 Hc3 N3 E4) as [N4 B4].
+      pose proof (pk_change_customer_class cf j i s3 a4 s4 (WFx2_idx _ _ W3) I E4) as Es4.
+      assert (W4 : WFx2 [] s4) by (eapply WFx2_shape; [exact Es4|exact W3]).
+      destruct (hb_fs_rest cf p j nd i [] s4 a s' cs4 I (fun i0 b0 (H0 : In (i0, b0) []) => match H0 with end) W4 N4 H) as (A & B & D).
+      split; [exact A|split; [exact B|]]. intros j0. rewrite (D j0). unfold z0.
+      rewrite (cntb_frame p s3 s4 (f_equal sh_ns Es4) B4), (cntb_frame p s s3 (f_equal sh_ns Es) B3). lia. }
+    destruct (n_next_type nd =? 1) eqn:E1; [exact (Fin _ (hb_change_shift cf p Hscope j []) H)|].
+    destruct (n_next_type nd =? 2) eqn:E2.
+    { unfold renegeW in H.
+      apply wbind_inv in H as (t & s2 & c2 & cs2 & E2' & H & ->). apply up_inv in E2' as [E2' ->].
+      unfold tnow, gets in E2'. injection E2' as <- <-.
+      apply wbind_inv in H as (nd' & s2b & c2b & cs2b & E2b & H & ->). apply up_inv in E2b as [E2b ->].
+      apply get_node_spec in E2b as (-> & _ & Hnd'). rewrite Hnd in Hnd'. injection Hnd' as <-.
+      apply wbind_inv in H as (i & s3 & c3 & cs3 & E3 & H & ->). apply up_inv in E3 as [E3 ->]. cbn [app].
+      destruct (frame_step _ [] s i s3 (pk_decide_between _) (cn_decide_between _) HW HN E3) as (Es & W3 & N3 & B3).
+      destruct (hb_ren_tail cf p j (now s) i [] s3 a s' cs3 I (fun i0 b0 (H0 : In (i0, b0) []) => match H0 with end) W3 N3 H) as (A & B & D).
+      split; [exact A|split; [exact B|]]. intros j0. rewrite (D j0). unfold z0.
+      rewrite (cntb_frame p s s3 (f_equal sh_ns Es) B3). lia. }
+    destruct (n_next_type nd =? 3) eqn:E3; [apply Z.eqb_eq in E3; destruct (HN3 j nd Hnd E3) as [Q1 Q2]; exact (hb_ccww_ev j s nd a s' cs1 HW HN Hnd Q1 Q2 H)|].
+    destruct (n_next_type nd =? 4) eqn:E4; [exact (Fin _ (hb_slotted_service cf p Hscope j []) H)|].
+    exact (Fin _ (B_wret p KT [] [] tt) H).
+  Qed.
+
+  Lemma hb_event_step s a s' cs : CandC s -> CandQ s -> WFx2 [] s -> NoInt s -> event_stepW cf s = Ok (a, s', cs) ->
+    WFx2 [] s' /\ NoInt s' /\ forall j0, cntb p s' j0 - netb p j0 cs = cntb p s j0.
+  Proof.
+    intros HX HN3 HW HN H. unfold event_stepW in H.
+    apply wbind_inv in H as (a1 & s1 & c1 & cs1 & E1 & H & ->). apply up_inv in E1 as [E1 ->].
+    unfold modify in E1. injection E1 as <- <-. set (s1 := s <| log := [] |>) in *.
+    apply wbind_inv in H as (k & s2 & c2 & cs2 & E2 & H & ->). apply up_inv in E2 as [E2 ->].
+    unfold gets in E2. injection E2 as <- <-. cbn [app].
+    apply wbind_inv in H as (a3 & s3 & c3 & cs3 & E3 & H & ->).
+    assert (M3 : WFx2 [] s3 /\ NoInt s3 /\ forall j0, cntb p s3 j0 - netb p j0 c3 = cntb p s j0).
+    { change (next_active s1) with (next_active s) in *. destruct (next_active s =? 0).
+      - destruct (hb_arrival_have_event s1 a3 s3 c3 I (fun i0 b0 (H0 : In (i0, b0) []) => match H0 with end) HW HN E3) as (A & B & D).
+        split; [exact A|split; [exact B|]]. intros j0. rewrite (D j0). unfold z0. change (cntb p s1 j0) with (cntb p s j0). lia.
+      - exact (hb_node_have_event (next_active s) s1 a3 s3 c3 HX HN3 HW HN E3). }
+    destruct M3 as (W3 & N3 & D3).
+    apply up_inv in H as [H ->]. rewrite app_nil_r.
+    assert (Hp : presK KT (ns <- gets nodes ;; update_all cf (map n_id ns) ;;; find_next_active_node)) by pka.
+    assert (Hc : calmN (ns <- gets nodes ;; update_all cf (map n_id ns) ;;; find_next_active_node)) by cna.
+    destruct (frame_step _ [] s3 a s' Hp Hc W3 N3 H) as (Es & W4 & N4 & B4).
+    split; [exact W4|split; [exact N4|]]. intros j0. rewrite (cntb_frame p s3 s' (f_equal sh_ns Es) B4). apply D3.
+  Qed.
+End BWalk3.
+End CP.
+
+(* ---------- B.2  the per-class counts at event level ---------- *)
+(* cntc c s j: the number of customers of node j that count under class c = whose previous_class is c (what the tracker
+   subtracts at a release); netc c j cs: what the calls cs do to entry (j, c) of NodeClassMatrix *)
+Definition cntc (c : Z) (s : sim) (j : Z) : Z := CP.cntb (fun z => z =? c) s j.
+Definition netc (c : Z) (j : Z) (cs : list call) : Z := CP.netb (fun z => z =? c) j cs.
+
+(* what is assumed of the candidates (shown invariant in B.4 as far as the first clause goes):
+   - a candidate of an end of service has previous_class = customer_class (it is not blocked);
+   - the candidate of a class change while waiting is a customer of the node *)
+Definition CandOK (s : sim) : Prop :=
+  forall j nd, nthZ (nodes s) (j - 1) = Some nd ->
+    (n_next_type nd = 0 -> forall i x, In i (n_next_inds nd) -> find_ind i (inds s) = Some x -> i_cls x = i_pcls x) /\
+    (n_next_type nd = 3 -> forall i, hd_error (n_next_inds nd) = Some i -> In i (all_individuals nd)).
+Definition candok_b (s : sim) : bool :=
+  forallb (fun nd =>
+    (negb (n_next_type nd =? 0) || forallb (fun i => match find_ind i (inds s) with Some x => i_cls x =? i_pcls x | None => true end) (n_next_inds nd)) &&
+    (negb (n_next_type nd =? 3) || match hd_error (n_next_inds nd) with Some i => memZ i (all_individuals nd) | None => true end)) (nodes s).
+Theorem candok_b_sound s : candok_b s = true -> CandOK s.
+Proof.
+  unfold candok_b. rewrite forallb_forall. intros H j nd Hnd. specialize (H nd (tk_nthZ_In _ _ _ Hnd)).
+  apply andb_true_iff in H as [H0 H3]. split.
+  - intros E0 i x Hi Hx. rewrite E0 in H0. cbn in H0. rewrite forallb_forall in H0. specialize (H0 i Hi). rewrite Hx in H0. apply Z.eqb_eq. exact H0.
+  - intros E3 i Hi. rewrite E3 in H3. cbn in H3. rewrite Hi in H3. apply memZ_In. exact H3.
+Qed.
+
+Lemma Inv2_nopre3 cf s : scope_nb cf = true -> Inv2 cf s ->
+  forall j nd, nthZ (nodes s) (j - 1) = Some nd -> n_next_type nd = 3 -> forall nc, nthZ (cf_nodes cf) (j - 1) = Some nc -> nc_preempt nc = 0.
+Proof.
+  intros Hsc (an & h & (_ & _ & _ & _ & _ & HP)) j nd Hnd E3 nc Hnc.
+  destruct (HP j nd Hnd) as [_ Hd]. specialize (Hd E3).
+  apply (Journey2.nopre_nc cf j nc); [|exact Hnc].
+  unfold scope_nb, Journey2r.scope2r in Hsc. apply andb_true_iff in Hsc as [_ Hsc].
+  destruct (Journey2.preempts cf); [|reflexivity]. apply andb_true_iff in Hsc as [_ Hsc]. rewrite Hd in Hsc. discriminate Hsc.
+Qed.
+
+(* one event: every entry of the matrix moves exactly as the calls say *)
+Theorem event_step_class_counts2_candok cf s s' : scope_nb cf = true -> Inv2 cf s -> CandOK s -> event_step cf s = Ok (tt, s') ->
+  Inv2 cf s' /\ forall c j, cntc c s' j - netc c j (calls_event_step cf s) = cntc c s j.
+Proof.
+  intros Hsc HI HC H. destruct (Inv2_facts cf s HI) as (HW & HN & _). split.
+  - exact (proj1 (event_step_naive_blocking2 cf s s' Hsc HI H)).
+  - intros c j. pose proof (scope_nb_int cf Hsc) as Hsi. pose proof (event_stepW_ok cf s s' H) as HE.
+    refine (proj2 (proj2 (CP.hb_event_step cf (fun z => z =? c) Hsi s tt s' _ _ _ HW HN HE)) j).
+    + intros j0 nd Hnd E0. exact (proj1 (HC j0 nd Hnd) E0).
+    + intros j0 nd Hnd E3. split; [exact (proj2 (HC j0 nd Hnd) E3)|exact (Inv2_nopre3 cf s Hsc HI j0 nd Hnd E3)].
+Qed.
+Fixpoint CandOK_run (cf : config) (s : sim) (ds : list draws) : Prop :=
+  match ds with
+  | [] => True
+  | d :: r => CandOK (s <| dr := d |>) /\ match event_step cf (s <| dr := d |>) with Ok (_, s1) => CandOK_run cf s1 r | _ => True end
+  end.
+Fixpoint candok_run_b (cf : config) (s : sim) (ds : list draws) : bool :=
+  match ds with
+  | [] => true
+  | d :: r => candok_b (s <| dr := d |>) && match event_step cf (s <| dr := d |>) with Ok (_, s1) => candok_run_b cf s1 r | _ => true end
+  end.
+Theorem candok_run_b_sound cf : forall ds s, candok_run_b cf s ds = true -> CandOK_run cf s ds.
+Proof.
+  induction ds as [|d r IH]; intros s H; cbn [candok_run_b CandOK_run] in *; [exact I|].
+  apply andb_true_iff in H as [H1 H2]. split; [apply candok_b_sound; exact H1|].
+  destruct (event_step cf (s <| dr := d |>)) as [[u s1]| |]; [apply IH; exact H2|exact I|exact I].
+Qed.
+Lemma netc_app c j a b : netc c j (a ++ b) = netc c j a + netc c j b.
+Proof. apply CP.netb_app. Qed.
+Theorem run_many_class_counts2_candok cf : scope_nb cf = true -> forall ds s s', Inv2 cf s -> CandOK_run cf s ds -> run_many cf s ds = Ok s' ->
+  Inv2 cf s' /\ forall c j, cntc c s' j - netc c j (calls_many cf s ds) = cntc c s j.
+Proof.
+  intros Hsc. induction ds as [|d r IH]; intros s s' HI HC H; cbn [run_many calls_many CandOK_run] in *.
+  - injection H as <-. split; [exact HI|]. intros c j. unfold netc, CP.netb. cbn. lia.
+  - destruct HC as [HC0 HCr]. destruct (event_step cf (s <| dr := d |>)) as [[[] s1]| |] eqn:E; try discriminate.
+    destruct (event_step_class_counts2_candok cf _ _ Hsc (Inv2_dr cf s d HI) HC0 E) as (I1 & T1).
+    destruct (IH _ _ I1 HCr H) as (I2 & T2'). split; [exact I2|].
+    intros c j. rewrite netc_app. specialize (T1 c j). specialize (T2' c j). change (cntc c (s <| dr := d |>) j) with (cntc c s j) in T1. lia.
+Qed.
+
+(* ---------- B.3  from the counts to the NodeClassMatrix tracker (cm_step of TrackerInc2) ---------- *)
+Definition entry (m : list (list Z)) (j c : Z) : Z :=
+  match nthZ m (j - 1) with Some row => match nthZ row c with Some v => v | None => 0 end | None => 0 end.
+Lemma inc1_entry v k d v' : inc1 v k d = Some v' ->
+  forall c, match nthZ v' c with Some x => x | None => 0 end = match nthZ v c with Some x => x | None => 0 end + (if c =? k then d else 0).
+Proof.
+  unfold inc1. destruct (nthZ v k) as [a0|] eqn:E; [|discriminate]. intros H. injection H as <-. intros c.
+  destruct (Z.eqb_spec c k) as [->|Hne].
+  - rewrite (tk_nthZ_updZ_eq _ _ _ _ E), E. reflexivity.
+  - rewrite tk_nthZ_updZ_neq by exact Hne. lia.
+Qed.
+Lemma inc2_entry m kk c d m' : inc2 m kk c d = Some m' ->
+  forall j c', entry m' j c' = entry m j c' + (if (j - 1 =? kk) && (c' =? c) then d else 0).
+Proof.
+  unfold inc2. destruct (nthZ m kk) as [row|] eqn:E; [|discriminate]. destruct (inc1 row c d) as [row'|] eqn:E1; [|discriminate].
+  intros H. injection H as <-. intros j c'. unfold entry. destruct (Z.eqb_spec (j - 1) kk) as [->|Hne]; cbn [andb].
+  - rewrite (tk_nthZ_updZ_eq _ _ _ _ E), E. exact (inc1_entry _ _ _ _ E1 c').
+  - rewrite tk_nthZ_updZ_neq by exact Hne. lia.
+Qed.
+Lemma cm_step_entry m cl m' : cm_step m cl = Some m' -> forall j c, entry m' j c = entry m j c + CP.catb (fun z => z =? c) j cl.
+Proof.
+  intros H j c. unfold CP.catb, CP.cdb, cnode. destruct cl as [j0 c0|j0 d0 i0 pc|j0 d0 i0 pc bb|j0 pc c0]; cbn [cm_step] in H.
+  - rewrite (inc2_entry _ _ _ _ _ H j c). rewrite (Z.eqb_sym c0 c).
+    destruct (Z.eqb_spec (j - 1) (j0 - 1)), (Z.eqb_spec j0 j), (c =? c0); cbn [andb bz]; lia.
+  - injection H as <-. destruct (j0 =? j); lia.
+  - rewrite (inc2_entry _ _ _ _ _ H j c). rewrite (Z.eqb_sym pc c).
+    destruct (Z.eqb_spec (j - 1) (j0 - 1)), (Z.eqb_spec j0 j), (c =? pc); cbn [andb bz]; lia.
+  - destruct (inc2 m (j0 - 1) pc (-1)) as [m1|] eqn:E1; [|discriminate].
+    rewrite (inc2_entry _ _ _ _ _ H j c), (inc2_entry _ _ _ _ _ E1 j c). rewrite (Z.eqb_sym pc c), (Z.eqb_sym c0 c).
+    destruct (Z.eqb_spec (j - 1) (j0 - 1)), (Z.eqb_spec j0 j), (c =? pc), (c =? c0); cbn [andb bz]; lia.
+Qed.
+Lemma cm_run_entry : forall cs m m', orun cm_step cs m = Some m' -> forall j c, entry m' j c = entry m j c + netc c j cs.
+Proof.
+  induction cs as [|cl r IH]; intros m m' H j c; cbn [orun] in H.
+  - injection H as <-. unfold netc, CP.netb. cbn. lia.
+  - destruct (cm_step m cl) as [m1|] eqn:E; [|discriminate]. rewrite (IH _ _ H j c), (cm_step_entry _ _ _ E j c).
+    unfold netc, CP.netb. cbn [map]. change (zsum (?a :: ?l)) with (a + zsum l). lia.
+Qed.
+(* any run in scope: whenever the NodeClassMatrix tracker, started on a matrix m0, does not raise, every entry that was the
+   true count before the run is the true count after the run *)
+Theorem run_many_class_matrix2_candok cf ds s s' m0 m' : scope_nb cf = true -> Inv2 cf s -> CandOK_run cf s ds -> run_many cf s ds = Ok s' ->
+  orun cm_step (calls_many cf s ds) m0 = Some m' ->
+  forall j c, entry m0 j c = cntc c s j -> entry m' j c = cntc c s' j.
+Proof.
+  intros Hsc HI HC H Hm j c E0. rewrite (cm_run_entry _ _ _ Hm j c), E0.
+  pose proof (proj2 (run_many_class_counts2_candok cf Hsc ds s s' HI HC H) c j). lia.
+Qed.
+
+(* the true matrix of TrackerInc2 (customers counted under customer_class, blocked ones under previous_class) has these entries
+   when every customer that is not blocked has previous_class = customer_class *)
+Definition TInvS (s : sim) : Prop := forall i x, find_ind i (inds s) = Some x -> i_blocked x = false -> i_pcls x = i_cls x.
+Definition tinvs_b (s : sim) : bool := forallb (fun x => i_blocked x || (i_pcls x =? i_cls x)) (inds s).
+Lemma find_ind_In_l i l x : find_ind i l = Some x -> In x l.
+Proof. induction l as [|y r IH]; cbn; [discriminate|]. destruct (i_id y =? i); [intros H; injection H as <-; left; reflexivity|intros H; right; auto]. Qed.
+Theorem tinvs_b_sound s : tinvs_b s = true -> TInvS s.
+Proof.
+  unfold tinvs_b. rewrite forallb_forall. intros H i x Hx Hb. specialize (H x (find_ind_In_l _ _ _ Hx)). rewrite Hb in H. apply Z.eqb_eq. exact H.
+Qed.
+Lemma nth_zseq : forall n s k, (k < n)%nat -> nth_error (zseq s n) k = Some (s + Z.of_nat k).
+Proof.
+  induction n as [|n IH]; intros s k Hk; [lia|]. destruct k as [|k]; cbn [zseq nth_error]; [f_equal; lia|].
+  rewrite IH by lia. f_equal. lia.
+Qed.
+Lemma cm_true_entry k s j c : TInvS s -> 0 <= c < Z.of_nat k -> nthZ (nodes s) (j - 1) <> None -> entry (cm_true k s) j c = cntc c s j.
+Proof.
+  intros HT Hc Hj. unfold entry, cm_true, cntc, CP.cntb, nsh. rewrite !nthZ_map.
+  destruct (nthZ (nodes s) (j - 1)) as [nd|]; [|congruence]. cbn [option_map].
+  replace c with (Z.of_nat (Z.to_nat c)) at 1 by lia. rewrite nthZ_of_nat, nth_error_map, nth_zseq by lia. cbn [option_map].
+  replace (0 + Z.of_nat (Z.to_nat c)) with c by lia. unfold qof, nshape. cbn [snd]. unfold zlen. do 2 f_equal.
+  apply filter_ext. intros i. unfold class_of, CP.pz, CP.pcl. destruct (find_ind i (inds s)) as [x|] eqn:Ex; cbn [option_map].
+  - destruct (i_blocked x) eqn:Eb; [reflexivity|]. rewrite (HT i x Ex Eb). reflexivity.
+  - destruct (Z.eqb_spec (-1) c); [lia|reflexivity].
+Qed.
+
+(* ---------- example: two classes; node 1 swaps the class at the end of a service (class-change matrix) and its waiting
+   customers change class after 1 tick (class_change_time); node 2 has room for one customer (blocking); node 3 has its own
+   arrivals and reneging ---------- *)
+Definition cm_cf : config :=
+  mkCfg 2
+    [ mkNcfg None (Some [[0; 8]; [8; 0]]) 0 SFixed 0 false [false; false] 0;
+      mkNcfg (Some 1) None 0 SFixed 0 false [false; false] 0;
+      mkNcfg None None 0 SFixed 0 true [true; true] 0 ]
+    [0; 0] 1 None [ RtNR [RDirect 2; RLeave; RLeave]; RtNR [RDirect 2; RLeave; RLeave] ]
+    [ [None; None; None]; [None; None; None] ] true [ [false; true]; [true; false] ].
+Definition cm_s0 : sim :=
+  mkSim 1 0 (mkArr 0 0 [[Some 1; None]; [None; None]; [Some 1; None]] 1 0 (Some 1))
+        [x_node 1 1 [x_srv 1] 1; x_node 2 1 [x_srv 1] 1; x_node 3 1 [x_srv 1] 1] [] 0 0 [] x_nd [] [[0; 0; 0]; [0; 0; 0]].
+Definition cm_d : draws := mkDraws [2] [1] [3; 3] [0; 0; 0] [1; 1] [1; 1; 1].
+Example cm_hyps : scope_nb cm_cf = true /\ inv2_b cm_cf nb_an0 [] cm_s0 = true /\ candok_run_b cm_cf cm_s0 (repeat cm_d 60) = true /\ tinvs_b cm_s0 = true.
+Proof. vm_compute. repeat split; reflexivity. Qed.
+(* 24 events: class changes while waiting at nodes 1 and 3 (Chg), customer 6 reneges at node 3 after its class change (Rel 3 0 6 1),
+   customers 3 and 5 are blocked at node 1 after the class-change matrix has given them class 1 (they still count under class 0) *)
+Example cm_calls24 : calls_many cm_cf cm_s0 (repeat cm_d 24) =
+  [Acc 1 0; Acc 3 0; Acc 1 0; Acc 3 0; Rel 1 2 1 0 false; Acc 2 1; Rel 3 0 2 0 false; Acc 1 0; Acc 3 0; Chg 1 0 1; Chg 3 0 1;
+   Rel 3 0 6 1 false; Acc 1 0; Acc 3 0; Blk 1 2 3 0; Chg 1 1 0; Rel 2 0 1 1 false; Rel 1 2 3 0 true; Acc 2 1; Rel 3 0 4 0 false;
+   Chg 1 0 1; Acc 1 0; Acc 3 0; Chg 1 1 0; Blk 1 2 5 0; Chg 1 0 1; Chg 1 0 1].
+Proof. vm_compute. reflexivity. Qed.
+Example cm_fold24 : exists s', run_many cm_cf cm_s0 (repeat cm_d 24) = Ok s' /\ cm_true 2 s' = [[1; 2]; [0; 1]; [2; 0]] /\ tinvs_b s' = true /\
+  orun cm_step (calls_many cm_cf cm_s0 (repeat cm_d 24)) (cm_true 2 cm_s0) = Some [[1; 2]; [0; 1]; [2; 0]].
+Proof. eexists. split; [vm_compute; reflexivity|]. vm_compute. repeat split; reflexivity. Qed.
+(* 60 events by the theorem: the tracker does not raise (computed) and every entry of its matrix is the true count *)
+Example cm_run60 : exists s' m', run_many cm_cf cm_s0 (repeat cm_d 60) = Ok s' /\
+  orun cm_step (calls_many cm_cf cm_s0 (repeat cm_d 60)) (cm_true 2 cm_s0) = Some m' /\
+  forall j c, 1 <= j <= 3 -> 0 <= c < 2 -> entry m' j c = cntc c s' j.
+Proof.
+  destruct (run_many cm_cf cm_s0 (repeat cm_d 60)) as [s'| |] eqn:E; [|vm_compute in E; discriminate|vm_compute in E; discriminate].
+  destruct (orun cm_step (calls_many cm_cf cm_s0 (repeat cm_d 60)) (cm_true 2 cm_s0)) as [m'|] eqn:Em; [|vm_compute in Em; discriminate].
+  exists s', m'. split; [reflexivity|]. split; [reflexivity|]. intros j c Hj Hc.
+  destruct cm_hyps as (H1 & H2 & H3 & H4).
+  apply (run_many_class_matrix2_candok cm_cf _ _ _ _ _ H1 (inv2_b_sound _ _ _ _ H2) (candok_run_b_sound _ _ _ H3) E Em).
+  apply (cm_true_entry 2 cm_s0 j c (tinvs_b_sound _ H4)); [lia|].
+  assert (Hj' : j = 1 \/ j = 2 \/ j = 3) by lia. destruct Hj' as [-> |[-> | ->]]; discriminate.
+Qed.
+
+(* ====================================================================================================================
+   B.4  TInvS is an invariant: the same logic once more, now for the attribute (customer_class, previous_class, is_blocked) and
+   with <= instead of = (no tracker calls are counted): cntb bad s j = number of customers of node j that are NOT blocked and have
+   previous_class <> customer_class; no event increases it.
+   ==================================================================================================================== *)
+Module CT.
+Definition tr3 (x : ind) : Z * Z * bool := (i_cls x, i_pcls x, i_blocked x).
+Definition at3 (s : sim) (i : Z) : option (Z * Z * bool) := option_map tr3 (find_ind i (inds s)).
+Definition pz3 (p : Z * Z * bool -> bool) (o : option (Z * Z * bool)) : bool := match o with Some b => p b | None => false end.
+Definition bad (t : Z * Z * bool) : bool := negb (snd t) && negb (snd (fst t) =? fst (fst t)).
+Definition calmN {A} (m : M A) : Prop :=
+  forall s a s', NoInt s -> m s = Ok (a, s') -> NoInt s' /\ forall i, at3 s' i = at3 s i.
+Definition calmB {A} (i0 : Z) (b0 : Z * Z * bool) (m : M A) : Prop :=
+  forall s a s', at3 s i0 = Some b0 -> NoInt s -> m s = Ok (a, s') -> NoInt s' /\ forall i, at3 s' i = at3 s i.
+
+Lemma calmB_of_calmN {A} i0 b0 (m : M A) : calmN m -> calmB i0 b0 m.
+Proof. intros H s a s' _ HN E. eapply H; eauto. Qed.
+Lemma cn_same {A} (m : M A) : (forall s a s', m s = Ok (a, s') -> inds s' = inds s /\ nodes s' = nodes s) -> calmN m.
+Proof. intros H s a s' HN E. destruct (H _ _ _ E) as [Ei En]. unfold NoInt, at3. rewrite Ei, En. auto. Qed.
+Lemma cn_ret {A} (x : A) : calmN (ret x). Proof. apply cn_same. intros s a s' H. inversion H. auto. Qed.
+Lemma cn_fail {A} e : calmN (@fail A e). Proof. intros s a s' _ H. discriminate. Qed.
+Lemma cn_oof {A} : calmN (@oof A). Proof. intros s a s' _ H. discriminate. Qed.
+Lemma cn_gets {A} (f : sim -> A) : calmN (gets f). Proof. apply cn_same. intros s a s' H. inversion H. auto. Qed.
+Lemma cn_lift {A} e (o : option A) : calmN (lift e o). Proof. destruct o; [apply cn_ret|apply cn_fail]. Qed.
+Lemma cn_modify (f : sim -> sim) : (forall s, inds (f s) = inds s /\ nodes (f s) = nodes s) -> calmN (modify f).
+Proof. intros Hf. apply cn_same. intros s a s' H. inversion H. apply Hf. Qed.
+Lemma cn_get_node j : calmN (get_node j). Proof. apply cn_same. intros s a s' H. apply get_node_spec in H as (-> & _). auto. Qed.
+Lemma cn_get_ind i : calmN (get_ind i). Proof. apply cn_same. intros s a s' H. apply get_ind_spec in H as (-> & _). auto. Qed.
+Lemma cn_draw_arr : calmN draw_arr. Proof. apply cn_same. intros s a s' H. unfold draw_arr in H. destruct (d_arr (dr s)); inversion H. auto. Qed.
+Lemma cn_draw_batch : calmN draw_batch. Proof. apply cn_same. intros s a s' H. unfold draw_batch in H. destruct (d_batch (dr s)); inversion H. auto. Qed.
+Lemma cn_draw_svc : calmN draw_svc. Proof. apply cn_same. intros s a s' H. unfold draw_svc in H. destruct (d_svc (dr s)); inversion H. auto. Qed.
+Lemma cn_draw_unif : calmN draw_unif. Proof. apply cn_same. intros s a s' H. unfold draw_unif in H. destruct (d_unif (dr s)); inversion H. auto. Qed.
+Lemma cn_draw_ren : calmN draw_ren. Proof. apply cn_same. intros s a s' H. unfold draw_ren in H. destruct (d_ren (dr s)); inversion H. auto. Qed.
+Lemma cn_draw_cct : calmN draw_cct. Proof. apply cn_same. intros s a s' H. unfold draw_cct in H. destruct (d_cct (dr s)); inversion H. auto. Qed.
+Lemma cn_bind {A B} (m : M A) (f : A -> M B) : calmN m -> (forall a, calmN (f a)) -> calmN (bind m f).
+Proof.
+  intros Hm Hf s b s' HN H. unfold bind in H. destruct (m s) as [[a s1]| |] eqn:E; try discriminate.
+  destruct (Hm _ _ _ HN E) as [N1 B1]. destruct (Hf a _ _ _ N1 H) as [N2 B2]. split; [exact N2|]. intros i. rewrite B2. apply B1.
+Qed.
+Lemma cb_bind {A B} i0 b0 (m : M A) (f : A -> M B) : calmB i0 b0 m -> (forall a, calmB i0 b0 (f a)) -> calmB i0 b0 (bind m f).
+Proof.
+  intros Hm Hf s b s' Hk HN H. unfold bind in H. destruct (m s) as [[a s1]| |] eqn:E; try discriminate.
+  destruct (Hm _ _ _ Hk HN E) as [N1 B1]. assert (Hk1 : at3 s1 i0 = Some b0) by (rewrite B1; exact Hk).
+  destruct (Hf a _ _ _ Hk1 N1 H) as [N2 B2]. split; [exact N2|]. intros i. rewrite B2. apply B1.
+Qed.
+Lemma cn_get_node_bind {B} j (f : node -> M B) : (forall nd, n_nint nd <= 0 -> calmN (f nd)) -> calmN (bind (get_node j) f).
+Proof.
+  intros Hf s b s' HN H. unfold bind in H. destruct (get_node j s) as [[nd s1]| |] eqn:E; try discriminate.
+  apply get_node_spec in E as (-> & _ & Hn). exact (Hf nd (NoInt_nth _ _ _ HN Hn) _ _ _ HN H).
+Qed.
+Lemma cb_get_node_bind {B} i0 b0 j (f : node -> M B) : (forall nd, n_nint nd <= 0 -> calmB i0 b0 (f nd)) -> calmB i0 b0 (bind (get_node j) f).
+Proof.
+  intros Hf s b s' Hk HN H. unfold bind in H. destruct (get_node j s) as [[nd s1]| |] eqn:E; try discriminate.
+  apply get_node_spec in E as (-> & _ & Hn). exact (Hf nd (NoInt_nth _ _ _ HN Hn) _ _ _ Hk HN H).
+Qed.
+Lemma cn_put_node nd : n_nint nd <= 0 -> calmN (put_node nd).
+Proof.
+  intros Hn s a s' HN H. unfold put_node, modify in H. inversion H. split; [|reflexivity].
+  unfold NoInt. cbn. unfold updZ. destruct (n_id nd - 1 <? 0); [exact HN|]. apply Forall_upd; assumption.
+Qed.
+Lemma cb_put_ind i0 b0 x' : i_id x' = i0 -> tr3 x' = b0 -> calmB i0 b0 (put_ind x').
+Proof.
+  intros Hid Hb s a s' Hk HN H. unfold put_ind, modify in H. inversion H. split; [exact HN|].
+  intros i. unfold at3. cbn. rewrite find_put_l. destruct (Z.eqb_spec (i_id x') i) as [<-|Hne]; [|reflexivity].
+  cbn. rewrite Hb. rewrite Hid. symmetry. exact Hk.
+Qed.
+Lemma cn_get_ind_then {B} i (F : ind -> M B) : (forall x, i_id x = i -> calmB i (tr3 x) (F x)) -> calmN (bind (get_ind i) F).
+Proof.
+  intros HF s b s' HN H. unfold bind in H. destruct (get_ind i s) as [[x s1]| |] eqn:E; try discriminate.
+  unfold get_ind in E. destruct (find_ind i (inds s)) as [x0|] eqn:Ef; inversion E. subst x0 s1.
+  apply (HF x (find_ind_id _ _ _ Ef) s b s'); [unfold at3; rewrite Ef; reflexivity|exact HN|exact H].
+Qed.
+Lemma cn_upd_ind i f : (forall x, i_id (f x) = i_id x) -> (forall x, tr3 (f x) = tr3 x) -> calmN (upd_ind i f).
+Proof. intros H1 H2. unfold upd_ind. apply cn_get_ind_then. intros x Hx. apply cb_put_ind; [rewrite H1; exact Hx|apply H2]. Qed.
+Lemma cn_upd_node j f : (forall nd, n_nint (f nd) <= n_nint nd) -> calmN (upd_node j f).
+Proof. intros Hf. unfold upd_node. apply cn_get_node_bind. intros nd Hn. apply cn_put_node. specialize (Hf nd). lia. Qed.
+Lemma cn_mapM {A B} (f : A -> M B) l : (forall a, calmN (f a)) -> calmN (mapM f l).
+Proof. intros Hf. induction l as [|a r IH]; cbn [mapM]; [apply cn_ret|]. apply cn_bind; [apply Hf|]. intros b. apply cn_bind; [exact IH|]. intros bs. apply cn_ret. Qed.
+Lemma cn_forM {A} (f : A -> M unit) l : (forall a, calmN (f a)) -> calmN (forM_ l f).
+Proof. intros Hf. induction l as [|a r IH]; cbn [forM_]; [apply cn_ret|]. apply cn_bind; [apply Hf|]. intros _. exact IH. Qed.
+
+Ltac cn_prim :=
+  first [ apply cn_ret | apply cn_fail | apply cn_oof | apply cn_gets | apply cn_lift | apply cn_get_node | apply cn_get_ind
+        | apply cn_draw_arr | apply cn_draw_batch | apply cn_draw_svc | apply cn_draw_unif | apply cn_draw_ren | apply cn_draw_cct
+        | (apply cn_upd_ind; intros ?; reflexivity)
+        | (apply cn_upd_node; intros ?; cbn; lia)
+        | (apply cn_put_node; cbn; lia)
+        | (apply cn_modify; intros ?; split; reflexivity) ].
+Ltac cn_struct :=
+  match goal with
+  | |- calmN (bind (get_ind _) _) => apply cn_get_ind_then; intros ? ?
+  | |- calmB _ _ (bind (get_ind _) _) => apply calmB_of_calmN, cn_get_ind_then; intros ? ?
+  | |- calmN (bind (get_node _) _) => apply cn_get_node_bind; intros ? ?
+  | |- calmB _ _ (bind (get_node _) _) => apply cb_get_node_bind; intros ? ?
+  | |- calmN (bind _ _) => apply cn_bind; [|intros ?]
+  | |- calmB _ _ (bind _ _) => apply cb_bind; [|intros ?]
+  | |- calmN (mapM _ _) => apply cn_mapM; intros ?
+  | |- calmN (forM_ _ _) => apply cn_forM; intros ?
+  | |- calmN (if ?b then _ else _) => destruct b
+  | |- calmN (match ?x with _ => _ end) => destruct x
+  | |- calmB _ _ (if ?b then _ else _) => destruct b
+  | |- calmB _ _ (match ?x with _ => _ end) => destruct x
+  | |- calmB _ _ (put_ind _) => apply cb_put_ind; [cbn; assumption|reflexivity]
+  | |- calmB _ _ _ => apply calmB_of_calmN
+  end.
+Tactic Notation "cn" "using" tactic(t) := repeat first [ t | cn_struct | cn_prim ].
+Ltac cn0 := repeat first [ cn_struct | cn_prim ].
+
+Section CalmWalk.
+  Variable cf : config.
+  Lemma cn_ncfg_of j : calmN (ncfg_of cf j). Proof. apply cn_lift. Qed.
+  Lemma cn_tnow : calmN tnow. Proof. apply cn_gets. Qed.
+  Lemma cn_log_rec r : calmN (log_rec r). Proof. apply cn_modify. intros s. split; reflexivity. Qed.
+  Lemma cn_choice_uniform {X} (l : list X) : calmN (choice_uniform l). Proof. unfold choice_uniform. cn0. Qed.
+  Lemma cn_choice_weighted den P : calmN (choice_weighted den P). Proof. unfold choice_weighted. cn0. Qed.
+  Lemma cn_choose_next_customer j : calmN (choose_next_customer cf j).
+  Proof. unfold choose_next_customer. cn using first [apply cn_ncfg_of | apply cn_choice_uniform]. Qed.
+  Lemma cn_upd_server j sid f : calmN (upd_server j sid f). Proof. unfold upd_server. cn0. Qed.
+  Lemma cn_find_next_class_change j : calmN (find_next_class_change j). Proof. unfold find_next_class_change. cn0. Qed.
+  Lemma cn_cct_loop row : forall b best bc, calmN (cct_loop row b best bc).
+  Proof. induction row as [|h r IH]; intros b best bc; cbn [cct_loop]; [apply cn_ret|]. cn using (apply IH). Qed.
+  Lemma cn_decide_class_change j i : calmN (decide_class_change cf j i).
+  Proof. unfold decide_class_change. cn using first [apply cn_cct_loop | apply cn_find_next_class_change | apply cn_tnow]. Qed.
+  Lemma cn_reset_class_change j i : calmN (reset_class_change cf j i).
+  Proof. unfold reset_class_change. cn using (apply cn_find_next_class_change). Qed.
+  Lemma cn_stime_num x : calmN (stime_num x). Proof. unfold stime_num. cn0. Qed.
+  Lemma cn_give_service_time_after_preemption i : calmN (give_service_time_after_preemption i).
+  Proof. unfold give_service_time_after_preemption. cn0. Qed.
+  Lemma cn_give_individual_a_service_time i : calmN (give_individual_a_service_time i).
+  Proof. unfold give_individual_a_service_time. cn using (apply cn_give_service_time_after_preemption). Qed.
+  Lemma cn_attach_server j sid i : calmN (attach_server j sid i). Proof. unfold attach_server. cn using (apply cn_upd_server). Qed.
+  Lemma cn_set_next_end j sid d : calmN (set_next_end j sid d). Proof. unfold set_next_end. apply cn_upd_server. Qed.
+  Lemma cn_kill_server j sid : calmN (kill_server j sid). Proof. unfold kill_server. cn using (apply cn_tnow). Qed.
+  Lemma cn_detatch_server j sid i : calmN (detatch_server j sid i). Proof. unfold detatch_server. cn using first [apply cn_kill_server | apply cn_tnow]. Qed.
+  Lemma cn_bump_rec i : calmN (bump_rec i). Proof. unfold bump_rec. cn0. Qed.
+  Lemma cn_write_individual_record j i : calmN (write_individual_record cf j i).
+  Proof. unfold write_individual_record. cn using first [apply cn_ncfg_of | apply cn_bump_rec | apply cn_log_rec]. Qed.
+  Lemma cn_write_interruption_record j i d : calmN (write_interruption_record cf j i d).
+  Proof. unfold write_interruption_record. cn using first [apply cn_ncfg_of | apply cn_bump_rec | apply cn_log_rec | apply cn_tnow]. Qed.
+  Lemma cn_write_reneging_record j i : calmN (write_reneging_record j i).
+  Proof. unfold write_reneging_record. cn using first [apply cn_bump_rec | apply cn_log_rec]. Qed.
+  Lemma cn_write_br_record j i ty : calmN (write_br_record j i ty).
+  Proof. unfold write_br_record. cn using first [apply cn_bump_rec | apply cn_log_rec | apply cn_tnow]. Qed.
+  Lemma cn_reset_individual_attributes i : calmN (reset_individual_attributes i). Proof. unfold reset_individual_attributes. cn0. Qed.
+End CalmWalk.
+
+Section CalmWalk2.
+  Variable cf : config.
+  Lemma cn_valid_dest d : calmN (valid_dest d). Proof. unfold valid_dest. cn0. Qed.
+  Lemma cn_jsq_loop lb ds : forall best acc, calmN (jsq_loop lb ds best acc).
+  Proof. induction ds as [|d r IH]; intros best acc; cbn [jsq_loop]; [apply cn_ret|]. cn using (apply IH). Qed.
+  Lemma cn_jsq_next lb ds order : calmN (jsq_next lb ds order).
+  Proof. unfold jsq_next. cn using first [apply cn_jsq_loop | apply cn_choice_uniform]. Qed.
+  Lemma cn_get_cyc c j : calmN (get_cyc c j). Proof. unfold get_cyc. cn0. Qed.
+  Lemma cn_bump_cyc c j : calmN (bump_cyc c j).
+  Proof.
+    unfold bump_cyc. apply cn_modify. intros s. destruct (nthZ (cyc s) c) as [row|]; [|split; reflexivity].
+    destruct (nthZ row (j - 1)); split; reflexivity.
+  Qed.
+  Lemma cn_node_router_next r c j : calmN (node_router_next r c j).
+  Proof. unfold node_router_next. cn using first [apply cn_choice_weighted | apply cn_jsq_next | apply cn_get_cyc | apply cn_bump_cyc]. Qed.
+  Lemma cn_next_node_for mode j i : calmN (next_node_for cf mode j i).
+  Proof.
+    unfold next_node_for.
+    cn using first [apply cn_node_router_next | apply cn_valid_dest | apply cn_choice_uniform | apply cn_jsq_next].
+  Qed.
+  Lemma cn_start_fresh j i osid count : calmN (start_fresh cf j i osid count).
+  Proof. unfold start_fresh. cn using first [apply cn_attach_server | apply cn_reset_class_change | apply cn_set_next_end | apply cn_tnow]. Qed.
+  Lemma cn_start_give j i sid : calmN (start_give cf j i sid).
+  Proof.
+    unfold start_give.
+    cn using first [apply cn_attach_server | apply cn_give_individual_a_service_time | apply cn_stime_num | apply cn_reset_class_change | apply cn_set_next_end | apply cn_tnow].
+  Qed.
+  Lemma cn_start_preemptor j i sid : calmN (start_preemptor cf j i sid).
+  Proof.
+    unfold start_preemptor.
+    cn using first [apply cn_attach_server | apply cn_give_individual_a_service_time | apply cn_stime_num | apply cn_reset_class_change | apply cn_set_next_end | apply cn_tnow].
+  Qed.
+  (* with NoInt nobody is waiting to be resumed: begin_interrupted_individuals_service (which clears a blocked flag, F-02b) is not reached *)
+  Lemma cn_serve_with j sid : calmN (serve_with cf j sid).
+  Proof.
+    unfold serve_with. apply cn_get_node_bind. intros nd Hn.
+    destruct (0 <? n_nint nd) eqn:E; [apply Z.ltb_lt in E; lia|].
+    cn using first [apply cn_choose_next_customer | apply cn_start_give].
+  Qed.
+  Lemma cn_begin_service_if_possible_release j freed : calmN (begin_service_if_possible_release cf j freed).
+  Proof. unfold begin_service_if_possible_release. cn using (apply cn_serve_with). Qed.
+  Lemma cn_get_reneging_date j i : calmN (get_reneging_date cf j i).
+  Proof. unfold get_reneging_date. cn using first [apply cn_ncfg_of | apply cn_tnow]. Qed.
+  Lemma cn_preempt_victim j i : calmN (preempt_victim cf j i).
+  Proof. unfold preempt_victim. cn using (apply cn_ncfg_of). Qed.
+  Lemma cn_decide_between l : calmN (decide_between l).
+  Proof. unfold decide_between. destruct l as [|a [|b r]]; [apply cn_fail|apply cn_ret|apply cn_choice_uniform]. Qed.
+  Lemma cn_has_space d : calmN (has_space cf d). Proof. unfold has_space. cn using (apply cn_ncfg_of). Qed.
+  Lemma cn_keyed l : calmN (keyed l). Proof. unfold keyed. cn0. Qed.
+  Lemma cn_sort_interrupted_individuals j : calmN (sort_interrupted_individuals j).
+  Proof. unfold sort_interrupted_individuals. cn using (apply cn_keyed). Qed.
+  Lemma cn_add_new_servers k j : calmN (add_new_servers k j).
+  Proof. induction k as [|k IH]; cbn [add_new_servers]; [apply cn_ret|]. cn using first [apply IH | apply cn_tnow]. Qed.
+  Lemma cn_begin_service_if_possible_change_shift j : calmN (begin_service_if_possible_change_shift cf j).
+  Proof. unfold begin_service_if_possible_change_shift. cn using (apply cn_serve_with). Qed.
+  Lemma cn_slot_loop k j : calmN (slot_loop cf k j).
+  Proof.
+    induction k as [|k IH]; cbn [slot_loop]; [apply cn_ret|].
+    cn using first [apply IH | apply cn_choose_next_customer | apply cn_give_individual_a_service_time | apply cn_stime_num | apply cn_reset_class_change | apply cn_tnow].
+  Qed.
+  Lemma cn_update_next_event_date j : calmN (update_next_event_date cf j).
+  Proof. unfold update_next_event_date. cn using first [apply cn_ncfg_of | apply cn_tnow]. Qed.
+  Lemma cn_update_all js : calmN (update_all cf js).
+  Proof. induction js as [|j r IH]; cbn [update_all]; [apply cn_ret|]. cn using first [apply IH | apply cn_update_next_event_date]. Qed.
+  Lemma cn_find_next_event_date : calmN find_next_event_date.
+  Proof. apply cn_modify. intros s. destruct (find_min_dates 1 (a_dates (arr s)) (None, 0, 0)) as [[d j] c]. split; reflexivity. Qed.
+  Lemma cn_sys_population : calmN sys_population. Proof. unfold sys_population. cn0. Qed.
+  Lemma cn_route_of i c : calmN (route_of cf i c). Proof. unfold route_of. cn0. Qed.
+  Lemma cn_find_next_active_node : calmN find_next_active_node.
+  Proof. unfold find_next_active_node. cn using (apply cn_choice_uniform). Qed.
+End CalmWalk2.
+
+Ltac cn_lem :=
+  first [ apply cn_ncfg_of | apply cn_tnow | apply cn_log_rec | apply cn_choice_uniform | apply cn_choice_weighted | apply cn_choose_next_customer
+        | apply cn_upd_server | apply cn_find_next_class_change | apply cn_cct_loop | apply cn_decide_class_change
+        | apply cn_reset_class_change | apply cn_stime_num | apply cn_give_service_time_after_preemption
+        | apply cn_give_individual_a_service_time | apply cn_attach_server | apply cn_set_next_end | apply cn_kill_server
+        | apply cn_detatch_server | apply cn_bump_rec | apply cn_write_individual_record | apply cn_write_interruption_record
+        | apply cn_write_reneging_record | apply cn_write_br_record | apply cn_reset_individual_attributes | apply cn_valid_dest
+        | apply cn_jsq_loop | apply cn_jsq_next | apply cn_get_cyc | apply cn_bump_cyc | apply cn_node_router_next
+        | apply cn_next_node_for | apply cn_start_fresh | apply cn_start_give | apply cn_start_preemptor
+        | apply cn_serve_with | apply cn_begin_service_if_possible_release | apply cn_get_reneging_date
+        | apply cn_preempt_victim | apply cn_decide_between | apply cn_has_space | apply cn_keyed
+        | apply cn_sort_interrupted_individuals | apply cn_add_new_servers | apply cn_begin_service_if_possible_change_shift
+        | apply cn_slot_loop | apply cn_update_next_event_date | apply cn_update_all | apply cn_find_next_event_date
+        | apply cn_sys_population | apply cn_route_of | apply cn_find_next_active_node ].
+Ltac cna := cn using cn_lem.
+(* ---------- the measures: customers of node j whose blocked flag satisfies p ---------- *)
+Definition cntb (p : Z * Z * bool -> bool) (s : sim) (j : Z) : Z :=
+  match nthZ (nsh s) (j - 1) with Some t => zlen (filter (fun i => pz3 p (at3 s i)) (qof t)) | None => 0 end.
+Definition cdb (p : Z * Z * bool -> bool) (c : call) : Z := 0.
+Definition catb (p : Z * Z * bool -> bool) (j : Z) (c : call) : Z := if cnode c =? j then cdb p c else 0.
+Definition netb (p : Z * Z * bool -> bool) (j : Z) (cs : list call) : Z := zsum (map (catb p j) cs).
+Lemma netb_app p j a b : netb p j (a ++ b) = netb p j a + netb p j b.
+Proof. unfold netb. rewrite map_app. apply zsum_app. Qed.
+(* a step that changes neither the shape nor the flags changes no count *)
+Lemma cntb_frame p s s' : nsh s' = nsh s -> (forall i, at3 s' i = at3 s i) -> forall j, cntb p s' j = cntb p s j.
+Proof. intros E B j. unfold cntb. rewrite E. destruct (nthZ (nsh s) (j - 1)); [|reflexivity]. unfold zlen. do 2 f_equal. apply filter_ext. intros i. rewrite B. reflexivity. Qed.
+(* flags of customers that are in no queue do not count *)
+Lemma cntb_flags p s s' : nsh s' = nsh s -> (forall i k t, nth_error (nsh s) k = Some t -> In i (qof t) -> at3 s' i = at3 s i) -> forall j, cntb p s' j = cntb p s j.
+Proof.
+  intros E B j. unfold cntb. rewrite E. destruct (nthZ (nsh s) (j - 1)) as [t|] eqn:Et; [|reflexivity]. unfold zlen. do 2 f_equal.
+  destruct (nthZ_nat _ _ _ Et) as (k & _ & Hk). apply filter_ext_in. intros i Hi. rewrite (B i k t Hk Hi). reflexivity.
+Qed.
+(* a node is written back: only its count changes *)
+Lemma cntb_put_node p s nd nd0 : okn (shp s) nd0 -> n_id nd = n_id nd0 ->
+  forall j, cntb p (s <| nodes := updZ (nodes s) (n_id nd - 1) nd |>) j =
+            if j =? n_id nd0 then zlen (filter (fun i => pz3 p (at3 s i)) (concat (n_queues nd))) else cntb p s j.
+Proof.
+  intros Hok Hid j. unfold cntb.
+  assert (E : nsh (s <| nodes := updZ (nodes s) (n_id nd - 1) nd |>) = updZ (nsh s) (n_id nd - 1) (nshape nd)) by (unfold nsh; cbn; apply tk_updZ_map).
+  rewrite E, Hid. unfold okn in Hok. cbn [shp sh_ns] in Hok. fold (nsh s) in Hok.
+  destruct (j =? n_id nd0) eqn:Ej.
+  - apply Z.eqb_eq in Ej. rewrite Ej, (tk_nthZ_updZ_eq _ _ _ _ Hok). reflexivity.
+  - apply Z.eqb_neq in Ej. rewrite tk_nthZ_updZ_neq by lia. reflexivity.
+Qed.
+(* ---------- the Hoare logic over W for these measures ---------- *)
+Definition Lok (L : list (Z * (Z * Z * bool))) (s : sim) : Prop := forall i b, In (i, b) L -> at3 s i = Some b.
+Definition hoB (p : Z * Z * bool -> bool) (K : shape -> Prop) (L : list (Z * (Z * Z * bool))) (fl fl' : list Z) (dl : Z -> Z) {X} (m : W X) : Prop :=
+  forall s a s' cs, K (shp s) -> Lok L s -> WFx2 fl s -> NoInt s -> m s = Ok (a, s', cs) ->
+    WFx2 fl' s' /\ NoInt s' /\ forall j, cntb p s' j - netb p j cs <= cntb p s j + dl j.
+
+Section BLogic.
+  Variable p : Z * Z * bool -> bool.
+  Lemma B_ext K L fl fl' dl dl' {X} (m : W X) : hoB p K L fl fl' dl m -> (forall j, dl' j = dl j) -> hoB p K L fl fl' dl' m.
+  Proof. intros H E s a s' cs HK HL HW HN Hm. destruct (H _ _ _ _ HK HL HW HN Hm) as (A & B & D). split; [auto|split; [auto|]]. intros j. rewrite E. apply D. Qed.
+  Lemma B_weak (K : shape -> Prop) L fl fl' dl {X} (m : W X) : hoB p KT [] fl fl' dl m -> hoB p K L fl fl' dl m.
+  Proof. intros H s a s' cs _ _ HW HN Hm. eapply H; [exact I| |exact HW|exact HN|exact Hm]. intros i b []. Qed.
+  Lemma B_wret K L fl {X} (a : X) : hoB p K L fl fl z0 (wret a).
+  Proof. intros s a0 s' cs _ _ HW HN H. unfold wret in H. injection H as <- <- <-. split; [auto|split; [auto|]]. intros j. unfold netb, z0. cbn. lia. Qed.
+  Lemma B_up K L fl {X} (m : M X) : presK K m -> calmN m -> hoB p K L fl fl z0 (up m).
+  Proof.
+    intros Hp Hc s a s' cs HK _ HW HN H. unfold up in H. destruct (m s) as [[a1 s1]| |] eqn:E; try discriminate. injection H as <- <- <-.
+    pose proof (Hp _ _ _ (WFx2_idx _ _ HW) HK E) as E1. destruct (Hc _ _ _ HN E) as [N1 B1].
+    split; [eapply WFx2_shape; eauto|]. split; [exact N1|]. intros j. rewrite (cntb_frame p s s1 (f_equal sh_ns E1) B1). unfold netb, z0. cbn. lia.
+  Qed.
+  Lemma B_bind_pres K L fl fl' dl {X Y} (m : M X) (f : X -> W Y) : presK K m -> calmN m -> (forall a, hoB p K L fl fl' dl (f a)) ->
+    hoB p K L fl fl' dl (wbind (up m) f).
+  Proof.
+    intros Hp Hc Hf s b s' cs HK HL HW HN H. unfold wbind, up in H. destruct (m s) as [[a s1]| |] eqn:E; try discriminate.
+    destruct (f a s1) as [[[b1 s2] c2]| |] eqn:E2; try discriminate. injection H as <- <- <-. cbn [app].
+    pose proof (Hp _ _ _ (WFx2_idx _ _ HW) HK E) as E1. destruct (Hc _ _ _ HN E) as [N1 B1].
+    assert (HK1 : K (shp s1)) by (rewrite E1; exact HK).
+    assert (HL1 : Lok L s1) by (intros i b0 Hi; rewrite B1; apply HL; exact Hi).
+    destruct (Hf a _ _ _ _ HK1 HL1 (WFx2_shape _ _ _ E1 HW) N1 E2) as (A & B & D). split; [exact A|split; [exact B|]].
+    intros j. specialize (D j). rewrite (cntb_frame p s s1 (f_equal sh_ns E1) B1) in D. exact D.
+  Qed.
+  Lemma B_bind K L fl1 fl2 fl3 d1 d2 {X Y} (m : W X) (f : X -> W Y) :
+    hoB p K L fl1 fl2 d1 m -> (forall a, hoB p KT [] fl2 fl3 d2 (f a)) -> hoB p K L fl1 fl3 (fun j => d1 j + d2 j) (wbind m f).
+  Proof.
+    intros Hm Hf s b s' cs HK HL HW HN H. unfold wbind in H. destruct (m s) as [[[a s1] c1]| |] eqn:E; try discriminate.
+    destruct (f a s1) as [[[b1 s2] c2]| |] eqn:E2; try discriminate. injection H as <- <- <-.
+    destruct (Hm _ _ _ _ HK HL HW HN E) as (A1 & B1 & D1).
+    destruct (Hf a _ _ _ _ I (fun i b0 (H0 : In (i, b0) []) => match H0 with end) A1 B1 E2) as (A2 & B2 & D2).
+    split; [exact A2|split; [exact B2|]]. intros j. rewrite netb_app. specialize (D1 j). specialize (D2 j). lia.
+  Qed.
+  Lemma B_bind_z K L fl1 fl2 fl3 dl {X Y} (m : W X) (f : X -> W Y) :
+    hoB p K L fl1 fl2 z0 m -> (forall a, hoB p KT [] fl2 fl3 dl (f a)) -> hoB p K L fl1 fl3 dl (wbind m f).
+  Proof. intros Hm Hf. eapply B_ext; [eapply B_bind; eauto|]. intros j. unfold z0. lia. Qed.
+  Lemma B_get_node_bind K L fl fl' dl {Y} j (f : node -> W Y) :
+    (forall nd, n_id nd = j -> n_nint nd <= 0 -> hoB p (fun sh => K sh /\ okn sh nd) L fl fl' dl (f nd)) -> hoB p K L fl fl' dl (wbind (up (get_node j)) f).
+  Proof.
+    intros Hf s b s' cs HK HL HW HN H. unfold wbind, up in H. destruct (get_node j s) as [[nd s1]| |] eqn:E; try discriminate.
+    apply get_node_spec in E as (-> & Hj & Hnd).
+    destruct (f nd s) as [[[b1 s2] c2]| |] eqn:E2; try discriminate. injection H as <- <- <-. cbn [app].
+    destruct (get_node_okn j s nd (WFx2_idx _ _ HW) Hnd) as [Hid Hok].
+    exact (Hf nd Hid (NoInt_nth _ _ _ HN Hnd) _ _ _ _ (conj HK Hok) HL HW HN E2).
+  Qed.
+  Lemma B_get_ind_bind K L fl fl' dl {Y} i (f : ind -> W Y) :
+    (forall x, i_id x = i -> hoB p (fun sh => K sh /\ oki sh x) ((i, tr3 x) :: L) fl fl' dl (f x)) -> hoB p K L fl fl' dl (wbind (up (get_ind i)) f).
+  Proof.
+    intros Hf s b s' cs HK HL HW HN H. unfold wbind, up in H. destruct (get_ind i s) as [[x s1]| |] eqn:E; try discriminate.
+    assert (Hb : at3 s i = Some (tr3 x)).
+    { unfold get_ind in E. unfold at3. destruct (find_ind i (inds s)); inversion E. reflexivity. }
+    apply get_ind_spec in E as (-> & Hi & Hx).
+    destruct (f x s) as [[[b1 s2] c2]| |] eqn:E2; try discriminate. injection H as <- <- <-. cbn [app].
+    eapply (Hf x Hi); [exact (conj HK Hx)| |exact HW|exact HN|exact E2]. intros i0 b0 [Hq|Hq]; [injection Hq as <- <-; exact Hb|apply HL; exact Hq].
+  Qed.
+  Lemma B_lift_bind K L fl fl' dl {X Y} e (o : option X) (f : X -> W Y) :
+    (forall a, o = Some a -> hoB p K L fl fl' dl (f a)) -> hoB p K L fl fl' dl (wbind (up (lift e o)) f).
+  Proof.
+    intros Hf s b s' cs HK HL HW HN H. destruct o as [a|]; [|discriminate]. unfold wbind, up in H. cbn in H.
+    destruct (f a s) as [[[b1 s2] c2]| |] eqn:E2; try discriminate. injection H as <- <- <-. cbn [app]. exact (Hf a eq_refl _ _ _ _ HK HL HW HN E2).
+  Qed.
+  Lemma B_emit_bind K L fl fl' d2 {Y} c (f : W Y) : hoB p K L fl fl' d2 f -> hoB p K L fl fl' (fun j => d2 j - catb p j c) (wbind (emit c) (fun _ => f)).
+  Proof.
+    intros Hf s b s' cs HK HL HW HN H. unfold wbind, emit in H.
+    destruct (f s) as [[[b1 s2] c2]| |] eqn:E2; try discriminate. injection H as <- <- <-.
+    destruct (Hf _ _ _ _ HK HL HW HN E2) as (A & B & D). split; [exact A|split; [exact B|]].
+    intros j. specialize (D j). unfold netb in *. cbn [app map]. change (zsum (catb p j c :: map (catb p j) c2)) with (catb p j c + zsum (map (catb p j) c2)). lia.
+  Qed.
+  Lemma B_bind_emit K L fl fl' d1 c (m : W unit) : hoB p K L fl fl' d1 m -> hoB p K L fl fl' (fun j => d1 j - catb p j c) (wbind m (fun _ => emit c)).
+  Proof.
+    intros Hm s b s' cs HK HL HW HN H. unfold wbind, emit in H.
+    destruct (m s) as [[[a s1] c1]| |] eqn:E; try discriminate. injection H as <- <- <-.
+    destruct (Hm _ _ _ _ HK HL HW HN E) as (A & B & D). split; [exact A|split; [exact B|]].
+    intros j. specialize (D j). rewrite netb_app. unfold netb at 2. cbn [map]. change (zsum [catb p j c]) with (catb p j c + 0). lia.
+  Qed.
+End BLogic.
+Section BMoves.
+  Variable p : Z * Z * bool -> bool.
+  (* customer i (flag b) is taken out of a queue of node j *)
+  Lemma B_put_rm (K : shape -> Prop) L fl i b nd j :
+    n_id nd = j -> n_nint nd <= 0 -> In (i, b) L ->
+    (forall sh, K sh -> exists nd0 p0 q q', okn sh nd0 /\ nthZ (n_queues nd0) p0 = Some q /\ remove_first i q = Some q' /\
+                        n_id nd = n_id nd0 /\ n_pop nd = n_pop nd0 - 1 /\ n_queues nd = updZ (n_queues nd0) p0 q') ->
+    hoB p K L fl (i :: fl) (fun j0 => if j0 =? j then - bz (p b) else 0) (up (put_node nd)).
+  Proof.
+    intros Hj Hn Hib HS s a s' cs HK HL HW HN H.
+    destruct (HS _ HK) as (nd0 & p0 & q & q' & Hok & Hq & Hr & Hid & Hpop & Hqs).
+    assert (E : put_node nd s = Ok (tt, s <| nodes := updZ (nodes s) (n_id nd - 1) nd |>)) by reflexivity.
+    destruct (trK_put_node_rm K fl i nd HS s tt _ HK HW E) as [W1 _].
+    unfold up in H. rewrite E in H. injection H as <- <- <-.
+    split; [exact W1|]. split; [apply NoInt_put; assumption|].
+    intros j0. rewrite (cntb_put_node p s nd nd0 Hok Hid). unfold netb. cbn [map zsum fold_right]. rewrite <- Hj, Hid.
+    destruct (j0 =? n_id nd0) eqn:Ej; [|lia]. apply Z.eqb_eq in Ej. rewrite Ej.
+    unfold cntb. unfold okn in Hok. cbn [shp sh_ns] in Hok. fold (nsh s) in Hok. rewrite Hok. unfold qof, nshape. cbn [snd].
+    assert (P : Permutation (concat (n_queues nd0)) (i :: concat (n_queues nd))).
+    { rewrite Hqs. destruct (nthZ_nat _ _ _ Hq) as (kp & -> & Hqk). rewrite updZ_nat. symmetry.
+      eapply concat_upd_rm; [exact Hqk|]. apply remove_first_perm. exact Hr. }
+    unfold zlen at 2. rewrite (tk_filter_len_perm _ _ _ P). fold (zlen (filter (fun i0 : Z => pz3 p (at3 s i0)) (i :: concat (n_queues nd)))).
+    rewrite zlen_filter_cons, (HL i b Hib). cbn [pz3]. lia.
+  Qed.
+  (* customer i (flag b), in flight, is appended to a queue of node j *)
+  Lemma B_put_add (K : shape -> Prop) L fl i b nd j :
+    n_id nd = j -> n_nint nd <= 0 -> In (i, b) L ->
+    (forall sh, K sh -> exists nd0 p0 q, okn sh nd0 /\ nthZ (n_queues nd0) p0 = Some q /\
+                        n_id nd = n_id nd0 /\ n_pop nd = n_pop nd0 + 1 /\ n_queues nd = updZ (n_queues nd0) p0 (q ++ [i])) ->
+    hoB p K L (i :: fl) fl (fun j0 => if j0 =? j then bz (p b) else 0) (up (put_node nd)).
+  Proof.
+    intros Hj Hn Hib HS s a s' cs HK HL HW HN H.
+    destruct (HS _ HK) as (nd0 & p0 & q & Hok & Hq & Hid & Hpop & Hqs).
+    assert (E : put_node nd s = Ok (tt, s <| nodes := updZ (nodes s) (n_id nd - 1) nd |>)) by reflexivity.
+    destruct (trK_put_node_add K fl i nd HS s tt _ HK HW E) as [W1 _].
+    unfold up in H. rewrite E in H. injection H as <- <- <-.
+    split; [exact W1|]. split; [apply NoInt_put; assumption|].
+    intros j0. rewrite (cntb_put_node p s nd nd0 Hok Hid). unfold netb. cbn [map zsum fold_right]. rewrite <- Hj, Hid.
+    destruct (j0 =? n_id nd0) eqn:Ej; [|lia]. apply Z.eqb_eq in Ej. rewrite Ej.
+    unfold cntb. unfold okn in Hok. cbn [shp sh_ns] in Hok. fold (nsh s) in Hok. rewrite Hok. unfold qof, nshape. cbn [snd].
+    assert (P : Permutation (concat (n_queues nd)) (i :: concat (n_queues nd0))).
+    { rewrite Hqs. destruct (nthZ_nat _ _ _ Hq) as (kp & -> & Hqk). rewrite updZ_nat.
+      eapply concat_upd_add; [exact Hqk|]. rewrite Permutation_app_comm. reflexivity. }
+    unfold zlen at 1. rewrite (tk_filter_len_perm _ _ _ P). fold (zlen (filter (fun i0 : Z => pz3 p (at3 s i0)) (i :: concat (n_queues nd0)))).
+    rewrite zlen_filter_cons, (HL i b Hib). cbn [pz3]. lia.
+  Qed.
+  (* the queues of a node are rearranged *)
+  Lemma B_put_mv (K : shape -> Prop) L fl nd :
+    n_nint nd <= 0 ->
+    (forall sh, K sh -> exists nd0, okn sh nd0 /\ n_id nd = n_id nd0 /\ n_pop nd = n_pop nd0 /\
+                        Permutation (concat (n_queues nd)) (concat (n_queues nd0))) ->
+    hoB p K L fl fl z0 (up (put_node nd)).
+  Proof.
+    intros Hn HS s a s' cs HK HL HW HN H.
+    destruct (HS _ HK) as (nd0 & Hok & Hid & Hpop & P).
+    assert (E : put_node nd s = Ok (tt, s <| nodes := updZ (nodes s) (n_id nd - 1) nd |>)) by reflexivity.
+    destruct (trK_put_node_mv K fl nd HS s tt _ HK HW E) as [W1 _].
+    unfold up in H. rewrite E in H. injection H as <- <- <-.
+    split; [exact W1|]. split; [apply NoInt_put; assumption|].
+    intros j0. rewrite (cntb_put_node p s nd nd0 Hok Hid). unfold netb, z0. cbn [map zsum fold_right].
+    destruct (j0 =? n_id nd0) eqn:Ej; [|lia]. apply Z.eqb_eq in Ej. rewrite Ej.
+    unfold cntb. unfold okn in Hok. cbn [shp sh_ns] in Hok. fold (nsh s) in Hok. rewrite Hok. unfold qof, nshape. cbn [snd].
+    unfold zlen. rewrite (tk_filter_len_perm _ _ _ P). lia.
+  Qed.
+  (* the record of a customer in flight is rewritten *)
+  Lemma B_put_ind_fl_bind (K : shape -> Prop) L fl fl' dl {Y} x (f : W Y) :
+    In (i_id x) fl -> hoB p K [(i_id x, tr3 x)] fl fl' dl f -> hoB p K L fl fl' dl (wbind (up (put_ind x)) (fun _ => f)).
+  Proof.
+    intros Hi Hf s b s' cs HK HL HW HN H. unfold wbind, up, put_ind, modify in H.
+    set (s1 := s <| inds := put_ind_l x (inds s) |>) in *.
+    destruct (f s1) as [[[b1 s2] c2]| |] eqn:E2; try discriminate. injection H as <- <- <-. cbn [app].
+    assert (Es : shp s1 = shp s).
+    { unfold shp, s1. cbn. f_equal. apply put_ind_l_ids_in. apply (WFx2_fl_in _ _ _ HW Hi). }
+    assert (Hbl : forall i, at3 s1 i = if i_id x =? i then Some (tr3 x) else at3 s i).
+    { intros i. unfold at3, s1. cbn. rewrite find_put_l. destruct (i_id x =? i); reflexivity. }
+    assert (HL1 : Lok [(i_id x, tr3 x)] s1).
+    { intros i0 b0 [Hq|[]]. injection Hq as <- <-. rewrite Hbl, Z.eqb_refl. reflexivity. }
+    assert (HK1 : K (shp s1)) by (rewrite Es; exact HK).
+    destruct (Hf _ _ _ _ HK1 HL1 (WFx2_shape _ _ _ Es HW) HN E2) as (A & B & D). split; [exact A|split; [exact B|]].
+    intros j. specialize (D j). rewrite (cntb_flags p s s1 (f_equal sh_ns Es)) in D; [exact D|].
+    intros i k t Hk Hin. rewrite Hbl. destruct (Z.eqb_spec (i_id x) i) as [<-|]; [|reflexivity].
+    exfalso. exact (WFx2_fl_notin _ _ _ _ _ HW Hi Hk Hin).
+  Qed.
+  (* the blocked flag of a customer waiting in node j is rewritten *)
+  Lemma B_put_ind_q_bind (K : shape -> Prop) L fl fl' d2 {Y} x b0 j (f : W Y) :
+    In (i_id x, b0) L ->
+    (forall sh, K sh -> oki sh x /\ exists t, nthZ (sh_ns sh) (j - 1) = Some t /\ In (i_id x) (qof t)) ->
+    hoB p K [(i_id x, tr3 x)] fl fl' d2 f ->
+    hoB p K L fl fl' (fun j0 => d2 j0 + (if j0 =? j then bz (p (tr3 x)) - bz (p b0) else 0)) (wbind (up (put_ind x)) (fun _ => f)).
+  Proof.
+    intros Hib HS Hf s b s' cs HK HL HW HN H. unfold wbind, up, put_ind, modify in H.
+    set (s1 := s <| inds := put_ind_l x (inds s) |>) in *.
+    destruct (f s1) as [[[b1 s2] c2]| |] eqn:E2; try discriminate. injection H as <- <- <-. cbn [app].
+    destruct (HS _ HK) as (Hoki & t & Ht & Hin).
+    assert (Es : shp s1 = shp s) by (unfold shp, s1; cbn; f_equal; apply put_ind_l_ids_in; exact Hoki).
+    assert (Hbl : forall i, at3 s1 i = if i_id x =? i then Some (tr3 x) else at3 s i).
+    { intros i. unfold at3, s1. cbn. rewrite find_put_l. destruct (i_id x =? i); reflexivity. }
+    assert (HL1 : Lok [(i_id x, tr3 x)] s1).
+    { intros i0 b1' [Hq|[]]. injection Hq as <- <-. rewrite Hbl, Z.eqb_refl. reflexivity. }
+    assert (HK1 : K (shp s1)) by (rewrite Es; exact HK).
+    destruct (Hf _ _ _ _ HK1 HL1 (WFx2_shape _ _ _ Es HW) HN E2) as (A & B & D). split; [exact A|split; [exact B|]].
+    intros j0. specialize (D j0).
+    assert (C : cntb p s1 j0 = cntb p s j0 + (if j0 =? j then bz (p (tr3 x)) - bz (p b0) else 0)); [|lia].
+    pose proof (WFx2_nodup _ _ HW) as Hnd. apply NoDup_app_left in Hnd.
+    cbn [shp sh_ns] in Ht. fold (nsh s) in Ht. destruct (nthZ_nat _ _ _ Ht) as (k & Hk & Hkt).
+    unfold cntb. rewrite (f_equal sh_ns Es : nsh s1 = nsh s).
+    destruct (j0 =? j) eqn:Ej.
+    - apply Z.eqb_eq in Ej. rewrite Ej, Ht.
+      rewrite (tk_filter_change (fun i => pz3 p (at3 s i)) (fun i => pz3 p (at3 s1 i)) (qof t) (i_id x)).
+      + rewrite Hbl, Z.eqb_refl, (HL _ _ Hib). cbn [pz3]. reflexivity.
+      + eapply (tk_NoDup_concat_nth (map qof (nsh s)) k); [exact Hnd|]. rewrite nth_error_map, Hkt. reflexivity.
+      + exact Hin.
+      + intros i' Hne. rewrite Hbl. destruct (Z.eqb_spec (i_id x) i'); [congruence|reflexivity].
+    - apply Z.eqb_neq in Ej. destruct (nthZ (nsh s) (j0 - 1)) as [t0|] eqn:Et0; [|lia].
+      destruct (nthZ_nat _ _ _ Et0) as (k0 & Hk0 & Hkt0).
+      assert (E : filter (fun i => pz3 p (at3 s1 i)) (qof t0) = filter (fun i => pz3 p (at3 s i)) (qof t0)); [|rewrite E; lia].
+      apply filter_ext_in. intros i' Hi'. rewrite Hbl. destruct (Z.eqb_spec (i_id x) i') as [<-|]; [|reflexivity]. exfalso.
+      apply (tk_NoDup_concat_disj (map qof (nsh s)) k k0 (qof t) (qof t0) (i_id x) Hnd); try assumption.
+      + rewrite nth_error_map, Hkt. reflexivity.
+      + rewrite nth_error_map, Hkt0. reflexivity.
+      + lia.
+  Qed.
+  (* the customer in flight reaches the exit *)
+  Lemma B_exit_accept (K : shape -> Prop) L fl i c : hoB p K L (i :: fl) fl z0 (up (exit_accept i c)).
+  Proof.
+    intros s a s' cs HK HL HW HN H. unfold up in H. destruct (exit_accept i c s) as [[a1 s1]| |] eqn:E; try discriminate. injection H as <- <- <-.
+    destruct (tr_exit_accept i c fl s a1 s1 I HW E) as [W1 _]. unfold exit_accept, bind, del_ind, modify in E. injection E as <- <-.
+    split; [exact W1|]. split; [exact HN|].
+    intros j. unfold netb, z0. cbn [map zsum fold_right].
+    match goal with |- cntb p ?st j - 0 <= _ => rewrite (cntb_flags p s st eq_refl) end; [lia|].
+    intros i' k t Hk Hin. unfold at3. cbn. rewrite find_del_l; [reflexivity|]. intros ->.
+    exact (WFx2_fl_notin _ _ _ _ _ HW (or_introl eq_refl) Hk Hin).
+  Qed.
+End BMoves.
+
+Section BLogic2.
+  Variable p : Z * Z * bool -> bool.
+  (* a frame step that writes back the record of a customer whose flag is remembered in L *)
+  Lemma B_bind_presB K L fl fl' dl {X Y} i0 b0 (m : M X) (f : X -> W Y) : presK K m -> In (i0, b0) L -> calmB i0 b0 m ->
+    (forall a, hoB p K L fl fl' dl (f a)) -> hoB p K L fl fl' dl (wbind (up m) f).
+  Proof.
+    intros Hp Hin Hc Hf s b s' cs HK HL HW HN H. unfold wbind, up in H. destruct (m s) as [[a s1]| |] eqn:E; try discriminate.
+    destruct (f a s1) as [[[b1 s2] c2]| |] eqn:E2; try discriminate. injection H as <- <- <-. cbn [app].
+    pose proof (Hp _ _ _ (WFx2_idx _ _ HW) HK E) as E1. destruct (Hc _ _ _ (HL _ _ Hin) HN E) as [N1 B1].
+    assert (HK1 : K (shp s1)) by (rewrite E1; exact HK).
+    assert (HL1 : Lok L s1) by (intros i b' Hi; rewrite B1; apply HL; exact Hi).
+    destruct (Hf a _ _ _ _ HK1 HL1 (WFx2_shape _ _ _ E1 HW) N1 E2) as (A & B & D). split; [exact A|split; [exact B|]].
+    intros j. specialize (D j). rewrite (cntb_frame p s s1 (f_equal sh_ns E1) B1) in D. exact D.
+  Qed.
+  Lemma B_oof K L fl fl' dl {X} : hoB p K L fl fl' dl (up (@oof X)).
+  Proof. intros s a s' cs _ _ _ _ H. discriminate. Qed.
+End BLogic2.
+
+Ltac hb_struct :=
+  match goal with
+  | |- hoB _ _ _ _ _ _ (wbind (up (get_node _)) _) => apply B_get_node_bind; intros ? ? ?
+  | |- hoB _ _ _ _ _ _ (wbind (up (get_ind _)) _) => apply B_get_ind_bind; intros ? ?
+  | |- hoB _ _ _ _ _ _ (wbind (up (lift _ _)) _) => apply B_lift_bind; intros ? ?
+  | |- hoB _ _ _ _ _ _ (wbind (up _) _) =>
+      first [ (apply B_bind_pres; [solve [pka]|solve [cna]|intros ?])
+            | (eapply B_bind_presB; [solve [pka]|left; reflexivity|solve [cna]|intros ?]) ]
+  | |- hoB _ _ _ _ _ _ (if ?b then _ else _) => destruct b
+  | |- hoB _ _ _ _ _ _ (match ?x with _ => _ end) => destruct x
+  | |- hoB _ _ _ _ _ _ (up _) => apply B_up; [solve [pka]|solve [cna]]
+  | |- hoB _ _ _ _ _ _ (wret _) => apply B_wret
+  end.
+Tactic Notation "hb" "using" tactic(t) :=
+  repeat first [ progress cbv zeta | (apply B_weak; t) | t | hb_struct | (eapply B_bind_z; [|intros ?]) ].
+Lemma hoB_eq p K L fl fl' dl {X} (m m' : W X) : (forall s, m s = m' s) -> hoB p K L fl fl' dl m -> hoB p K L fl fl' dl m'.
+Proof. intros E H s a s' cs HK HL HW HN Hm. rewrite <- E in Hm. eapply H; eauto. Qed.
+
+Lemma B_le p K L fl fl' dl dl' {X} (m : W X) : hoB p K L fl fl' dl m -> (forall j, dl j <= dl' j) -> hoB p K L fl fl' dl' m.
+Proof. intros H E s a s' cs HK HL HW HN Hm. destruct (H _ _ _ _ HK HL HW HN Hm) as (A & B & D). split; [auto|split; [auto|]]. intros j. specialize (D j). specialize (E j). lia. Qed.
+Lemma B_consK p (K K' : shape -> Prop) L fl fl' dl {X} (m : W X) : (forall sh, K' sh -> K sh) -> hoB p K L fl fl' dl m -> hoB p K' L fl fl' dl m.
+Proof. intros HKK H s a s' cs HK HL HW HN Hm. eapply H; [apply HKK; exact HK|exact HL|exact HW|exact HN|exact Hm]. Qed.
+Lemma B_get_ind_bind2 p K L fl fl' dl {Y} i (f : ind -> W Y) :
+  (forall x, i_id x = i -> (forall b, In (i, b) L -> tr3 x = b) -> hoB p (fun sh => K sh /\ oki sh x) ((i, tr3 x) :: L) fl fl' dl (f x)) ->
+  hoB p K L fl fl' dl (wbind (up (get_ind i)) f).
+Proof.
+  intros Hf s b s' cs HK HL HW HN H. unfold wbind, up in H. destruct (get_ind i s) as [[x s1]| |] eqn:E; try discriminate.
+  assert (Hb : at3 s i = Some (tr3 x)).
+  { unfold get_ind in E. unfold at3. destruct (find_ind i (inds s)); inversion E. reflexivity. }
+  apply get_ind_spec in E as (-> & Hi & Hx).
+  destruct (f x s) as [[[b1 s2] c2]| |] eqn:E2; try discriminate. injection H as <- <- <-. cbn [app].
+  eapply (Hf x Hi); [|exact (conj HK Hx)| |exact HW|exact HN|exact E2].
+  - intros b0 Hin. pose proof (HL _ _ Hin) as Hq. rewrite Hb in Hq. injection Hq as Hq. exact Hq.
+  - intros i0 b0 [Hq|Hq]; [injection Hq as <- <-; exact Hb|apply HL; exact Hq].
+Qed.
+Definition rmv (j : Z) (a : Z * Z * bool) : Z -> Z := fun j0 => if j0 =? j then - bz (bad a) else 0.
+Lemma rmv_le j a j0 : rmv j a j0 <= z0 j0.
+Proof. unfold rmv, z0, bz. destruct (j0 =? j), (bad a); lia. Qed.
+
+Ltac ifs := repeat match goal with |- context [if ?b then _ else _] => destruct b end.
+Section BWalk.
+  Variable cf : config.
+  Notation B0 fl fl' m := (hoB bad KT [] fl fl' z0 m).
+
+  Lemma hb_core : forall f,
+    (forall j i d rr fl a, hoB bad KT [(i, a)] fl fl (rmv j a) (releaseW cf f j i d rr)) /\
+    (forall j i d rr fl, B0 fl fl (releaseW cf f j i d rr)) /\
+    (forall j fl, B0 fl fl (release_blocked_individualW cf f j)) /\
+    (forall j i fl, B0 (i :: fl) fl (acceptW cf f j i)) /\
+    (forall j v i fl, B0 fl fl (preemptW cf f j v i)).
+  Proof.
+    induction f as [|f (IHr1 & IHr0 & IHb & IHa & IHp)].
+    - split; [|split; [|split; [|split]]]; intros; simpl; apply B_oof.
+    - split; [|split; [|split; [|split]]].
+      + intros j i d rr fl a. simpl releaseW.
+        apply B_bind_pres; [solve [pka]|solve [cna]|intros t].
+        apply B_get_ind_bind; intros x Hx.
+        apply B_get_node_bind; intros nd Hid Hn.
+        apply B_bind_pres; [solve [pka]|solve [cna]|intros nc].
+        apply B_lift_bind; intros q Hq. apply B_lift_bind; intros q' Hq'.
+        cbv zeta.
+        eapply B_ext; [eapply B_bind; [apply B_put_rm with (i := i) (b := a) (j := j); [exact Hid|cbn; lia|right; left; reflexivity|]|intros _]|].
+        * intros sh ((_ & _) & Hok). exists nd, (i_pprio x), q, q'. repeat split; assumption || reflexivity.
+        * apply B_put_ind_fl_bind; [left; symmetry; exact Hx|].
+          do 4 hb_struct.
+          eapply B_emit_bind.
+          hb using first [apply B_exit_accept | apply IHa | apply IHb].
+        * intros j0. unfold rmv, catb, z0, cdb. ifs; lia.
+      + intros j i d rr fl. simpl releaseW.
+        apply B_bind_pres; [solve [pka]|solve [cna]|intros t].
+        apply B_get_ind_bind; intros x Hx.
+        eapply B_le; [|intros j0; apply (rmv_le j (tr3 x))].
+        apply B_get_node_bind; intros nd Hid Hn.
+        apply B_bind_pres; [solve [pka]|solve [cna]|intros nc].
+        apply B_lift_bind; intros q Hq. apply B_lift_bind; intros q' Hq'.
+        cbv zeta.
+        eapply B_ext; [eapply B_bind; [apply B_put_rm with (i := i) (b := tr3 x) (j := j); [exact Hid|cbn; lia|left; reflexivity|]|intros _]|].
+        * intros sh ((_ & _) & Hok). exists nd, (i_pprio x), q, q'. repeat split; assumption || reflexivity.
+        * apply B_put_ind_fl_bind; [left; symmetry; exact Hx|].
+          do 4 hb_struct.
+          eapply B_emit_bind.
+          hb using first [apply B_exit_accept | apply IHa | apply IHb].
+        * intros j0. unfold rmv, catb, z0, cdb. ifs; lia.
+      + intros j fl. simpl release_blocked_individualW. hb using (apply IHr0).
+      + intros j i fl. simpl acceptW.
+        apply B_get_ind_bind; intros x Hx.
+        apply B_get_node_bind; intros nd Hid Hn.
+        eapply B_ext; [eapply B_bind_emit|].
+        * apply B_put_ind_fl_bind; [left; symmetry; exact Hx|].
+          apply B_lift_bind; intros qs Hqs.
+          eapply B_bind; [apply B_put_add with (i := i) (b := (i_cls x, i_cls x, false)) (j := j); [exact Hid|cbn; lia|left; f_equal; exact Hx|]|intros _].
+          -- intros sh ((_ & _) & Hok). destruct (nthZ (n_queues nd) (i_prio x)) as [q|] eqn:Eq; [|discriminate].
+             injection Hqs as <-. exists nd, (i_prio x), q. repeat split; assumption || reflexivity.
+          -- hb using (apply IHp).
+        * intros j0. unfold catb, z0, cdb, bad. cbn [fst snd negb andb]. rewrite Z.eqb_refl. cbn [negb bz]. ifs; lia.
+      + intros j v i fl. simpl preemptW. hb using (apply IHr0).
+  Qed.
+End BWalk.
+
+Definition fs_tail2W (cf : config) (j : Z) (nd : node) (i : Z) : W unit :=
+  nc <~ up (ncfg_of cf j) ;; x <~ up (get_ind i) ;;
+  match nc_ccm nc with
+  | None => CP.fs_restW cf j nd i
+  | Some m =>
+    row <~ up (lift E_Config (nthZ m (i_cls x))) ;;
+    k <~ up (choice_weighted 8 row) ;;
+    p' <~ up (lift E_Config (nthZ (cf_prio cf) (Z.of_nat k))) ;;
+    up (put_ind (x <| i_pcls := i_cls x |> <| i_cls := Z.of_nat k |> <| i_pprio := i_prio x |> <| i_prio := p' |>)) ;;~
+    CP.fs_restW cf j nd i
+  end.
+Lemma fs_ccc_split cf j nd i s : fs_tailW cf j nd i s = fs_tail2W cf j nd i s.
+Proof.
+  rewrite CP.fs_tail_split. unfold fs_tail2W, change_customer_class, wbind, up, bind.
+  destruct (ncfg_of cf j s) as [[nc s1]| |]; [|reflexivity|reflexivity].
+  destruct (get_ind i s1) as [[x s2]| |]; [|reflexivity|reflexivity].
+  destruct (nc_ccm nc) as [m|].
+  - destruct (lift E_Config (nthZ m (i_cls x)) s2) as [[row s3]| |]; [|reflexivity|reflexivity].
+    destruct (choice_weighted 8 row s3) as [[k s4]| |]; [|reflexivity|reflexivity].
+    destruct (lift E_Config (nthZ (cf_prio cf) (Z.of_nat k)) s4) as [[p' s5]| |]; [|reflexivity|reflexivity].
+    unfold put_ind, modify. destruct (CP.fs_restW cf j nd i _) as [[[b s6] c6]| |]; reflexivity.
+  - unfold ret. destruct (CP.fs_restW cf j nd i s2) as [[[b s6] c6]| |]; reflexivity.
+Qed.
+
+Section BWalk2.
+  Variable cf : config.
+  Hypothesis Hscope : scope_int cf = true.
+  Notation B0 fl fl' m := (hoB bad KT [] fl fl' z0 m).
+  Notation p := bad (only parsing).
+
+  Lemma hb_release1 f j i d rr fl a : hoB bad KT [(i, a)] fl fl (rmv j a) (releaseW cf f j i d rr). Proof. apply hb_core. Qed.
+  Lemma hb_release0 f j i d rr fl : B0 fl fl (releaseW cf f j i d rr). Proof. apply hb_core. Qed.
+  Lemma hb_rbi f j fl : B0 fl fl (release_blocked_individualW cf f j). Proof. apply hb_core. Qed.
+  Lemma hb_accept f j i fl : B0 (i :: fl) fl (acceptW cf f j i). Proof. apply hb_core. Qed.
+  Lemma hb_preempt f j v i fl : B0 fl fl (preemptW cf f j v i). Proof. apply hb_core. Qed.
+
+  Lemma B_forMW K L fl {X} (l : list X) (f : X -> W unit) : (forall a, B0 fl fl (f a)) -> hoB bad K L fl fl z0 (forMW l f).
+  Proof. intros Hf. apply B_weak. induction l as [|a r IH]; cbn [forMW]; [apply B_wret|]. eapply B_bind_z; [apply Hf|intros _; exact IH]. Qed.
+
+  (* finish_service after change_customer_class: customer i (attribute a) of node j leaves or becomes blocked *)
+  Lemma hb_fs_rest j nd i fl a : hoB bad (inq i j) [(i, a)] fl fl (rmv j a) (CP.fs_restW cf j nd i).
+  Proof.
+    unfold CP.fs_restW.
+    do 6 hb_struct.
+    - hb_struct. apply (B_consK bad KT); [intros; exact I|]. apply hb_release1.
+    - apply B_get_ind_bind; intros x Hx.
+      eapply B_ext; [eapply B_put_ind_q_bind with (b0 := a) (j := j)|].
+      + right. left. f_equal. symmetry. exact Hx.
+      + intros sh [Hq Hoki]. split; [exact Hoki|]. destruct Hq as (t & Ht & Hin). exists t. split; [exact Ht|]. cbn. rewrite Hx. exact Hin.
+      + eapply B_emit_bind. apply B_up; [solve [pka]|solve [cna]].
+      + intros j0. unfold rmv, catb, z0, cdb, bad. cbn [tr3 fst snd negb andb bz]. cbn. ifs; lia.
+  Qed.
+  (* finish_service after its candidate i, a customer of node j, has been chosen *)
+  Lemma hb_fs_tail j nd i fl : hoB bad (inq i j) [] fl fl z0 (fs_tailW cf j nd i).
+  Proof.
+    apply (hoB_eq bad (inq i j) [] fl fl z0 (fs_tail2W cf j nd i) (fs_tailW cf j nd i)); [intros s; symmetry; apply fs_ccc_split|]. unfold fs_tail2W.
+    hb_struct.
+    apply B_get_ind_bind; intros x Hx.
+    eapply B_le; [|intros j0; apply (rmv_le j (tr3 x))].
+    match goal with |- context [nc_ccm ?n] => destruct (nc_ccm n) as [m|] end.
+    - apply B_lift_bind; intros row Hrow. hb_struct. apply B_lift_bind; intros p' Hp'.
+      rewrite <- Hx.
+      eapply B_ext; [eapply B_put_ind_q_bind with (b0 := tr3 x) (j := j)|].
+      + left. reflexivity.
+      + intros sh [Hq Hoki]. split; [exact Hoki|]. destruct Hq as (t & Ht & Hin). exists t. split; [exact Ht|]. exact Hin.
+      + apply (B_consK bad (inq (i_id x) j)); [intros sh [Hq _]; exact Hq|]. apply hb_fs_rest.
+      + intros j0. unfold rmv, z0, bz. ifs; lia.
+    - apply (B_consK bad (inq i j)); [intros sh [Hq _]; exact Hq|]. apply hb_fs_rest.
+  Qed.
+
+  Lemma hb_ren_tail j t i fl : B0 fl fl (ren_tailW cf j t i).
+  Proof.
+    unfold ren_tailW.
+    apply B_bind_pres; [solve [pka]|solve [cna]|intros _].
+    apply B_bind_pres; [solve [pka]|solve [cna]|intros d].
+    apply B_get_ind_bind; intros x Hx.
+    eapply B_le; [|intros j0; apply (rmv_le j (tr3 x))].
+    apply B_get_node_bind; intros nd1 Hid1 Hn1.
+    apply B_lift_bind; intros q Hq. apply B_lift_bind; intros q' Hq'.
+    cbv zeta.
+    eapply B_ext; [eapply B_bind; [apply B_put_rm with (i := i) (b := tr3 x) (j := j); [exact Hid1|cbn; lia|left; reflexivity|]|intros _]|].
+    - intros sh ((_ & _) & Hok). exists nd1, (i_pprio x), q, q'. repeat split; assumption || reflexivity.
+    - do 4 hb_struct.
+      eapply B_emit_bind.
+      hb using first [apply B_exit_accept | apply hb_accept | apply hb_rbi].
+    - intros j0. unfold rmv, catb, z0, cdb. ifs; lia.
+  Qed.
+
+  Lemma hb_interrupt_service f j i fl : B0 fl fl (interrupt_serviceW cf f j i 4).
+  Proof. unfold interrupt_serviceW. change (4 =? 4) with true. cbv iota. hb using (apply hb_release0). Qed.
+  Lemma hb_off_duty_loop k f j se fl : forall idx, B0 fl fl (off_duty_loopW cf k f j idx 4 se).
+  Proof. induction k as [|k IH]; intros idx; cbn [off_duty_loopW]; [apply B_wret|]. hb using first [apply hb_interrupt_service | apply IH]. Qed.
+  Lemma hb_take_servers_off_duty f j pre fl : pre = 0 \/ pre = 4 -> B0 fl fl (take_servers_off_dutyW cf f j pre).
+  Proof.
+    intros [-> | ->]; unfold take_servers_off_dutyW.
+    - change (0 =? 0) with true. cbv iota. hb using fail.
+    - change (4 =? 0) with false. cbv iota. hb using (apply hb_off_duty_loop).
+  Qed.
+  Lemma scope_nc j nc : nthZ (cf_nodes cf) (j - 1) = Some nc -> scope_int_nc nc = true.
+  Proof.
+    intros H. unfold scope_int in Hscope. rewrite forallb_forall in Hscope. apply Hscope.
+    destruct (nthZ_nat _ _ _ H) as (k & _ & Hk). eapply nth_error_In; eauto.
+  Qed.
+  Lemma hb_change_shift j fl : B0 fl fl (change_shiftW cf j).
+  Proof.
+    unfold change_shiftW, ncfg_of. apply B_lift_bind; intros nc Hnc. pose proof (scope_nc j nc Hnc) as Hs. unfold scope_int_nc in Hs.
+    destruct (nc_srv nc) as [|sc|sl]; try (apply B_up; [solve [pka]|solve [cna]]).
+    assert (Hpre : sc_pre sc = 0 \/ sc_pre sc = 4).
+    { apply orb_true_iff in Hs as [Hs|Hs]; apply Z.eqb_eq in Hs; auto. }
+    hb using (apply hb_take_servers_off_duty; exact Hpre).
+  Qed.
+  Lemma hb_slotted_service j fl : B0 fl fl (slotted_serviceW cf j).
+  Proof.
+    unfold slotted_serviceW, ncfg_of. apply B_lift_bind; intros nc Hnc. pose proof (scope_nc j nc Hnc) as Hs. unfold scope_int_nc in Hs.
+    destruct (nc_srv nc) as [|sc|sl]; try (apply B_up; [solve [pka]|solve [cna]]).
+    apply B_get_node_bind; intros nd Hid Hn.
+    apply B_bind_pres; [solve [pka]|solve [cna]|intros _]. cbv zeta.
+    eapply B_bind_z; [|intros _; hb using fail].
+    destruct (sl_cap sl) eqn:Ec; cbn [andb negb orb] in *; [|apply B_wret].
+    destruct (sl_pre sl =? 0) eqn:E0; cbn [negb orb] in *; [apply B_wret|]. apply Z.eqb_eq in Hs. rewrite Hs.
+    hb using first [apply B_forMW; intros ? | apply hb_interrupt_service].
+  Qed.
+  Lemma hb_send_individual j i fl : B0 (i :: fl) fl (send_individualW cf j i).
+  Proof. unfold send_individualW. hb using (apply hb_accept). Qed.
+  Lemma B_up_exit K L fl i c (m : M unit) : presK K m -> calmN m -> hoB bad K L (i :: fl) fl z0 (up (m ;;; exit_accept i c)).
+  Proof. intros Hp Hc. eapply hoB_eq; [intros s; apply up_bind_eq|]. apply B_bind_pres; [exact Hp|exact Hc|intros _; apply B_exit_accept]. Qed.
+  Lemma hb_release_individual j i fl : B0 (i :: fl) fl (release_individualW cf j i).
+  Proof. unfold release_individualW. hb using first [apply hb_send_individual | (apply B_up_exit; [solve [pka]|solve [cna]])]. Qed.
+End BWalk2.
+
+Lemma frame_step {X} (m : M X) fl s a s1 : presK KT m -> calmN m -> WFx2 fl s -> NoInt s -> m s = Ok (a, s1) ->
+  shp s1 = shp s /\ WFx2 fl s1 /\ NoInt s1 /\ forall i, at3 s1 i = at3 s i.
+Proof.
+  intros Hp Hc HW HN E. pose proof (Hp _ _ _ (WFx2_idx _ _ HW) I E) as E1. destruct (Hc _ _ _ HN E) as [N1 B1].
+  split; [exact E1|]. split; [eapply WFx2_shape; eauto|]. auto.
+Qed.
+
+Section BWalk3.
+  Variable cf : config.
+  Hypothesis Hscope : scope_int cf = true.
+  Notation B0 fl fl' m := (hoB bad KT [] fl fl' z0 m).
+
+  Lemma hb_batch_loop : forall n j c p0, B0 [] [] (batch_loopW cf n j c p0).
+  Proof.
+    induction n as [|n IH]; intros j c p0; cbn [batch_loopW]; [apply B_wret|].
+    intros s a s' cs _ _ HW HN H.
+    apply wbind_inv in H as (a1 & s1 & c1 & cs1 & E1 & H & ->). apply up_inv in E1 as [E1 ->].
+    unfold modify in E1. injection E1 as <- <-.
+    set (s1 := s <| arr := arr s <| a_created := a_created (arr s) + 1 |> |>) in *.
+    apply wbind_inv in H as (i & s2 & c2 & cs2 & E2 & H & ->). apply up_inv in E2 as [E2 ->].
+    unfold gets in E2. injection E2 as <- <-. change (a_created (arr s1)) with (a_created (arr s) + 1) in H.
+    set (i := a_created (arr s) + 1) in *.
+    apply wbind_inv in H as (a3 & s3 & c3 & cs3 & E3 & H & ->). apply up_inv in E3 as [E3 ->].
+    destruct (1 <=? j); [|discriminate E3]. unfold ret in E3. injection E3 as _ <-.
+    apply wbind_inv in H as (a4 & s4 & c4 & cs4 & E4 & H & ->). apply up_inv in E4 as [E4 ->].
+    apply get_node_spec in E4 as (-> & _ & _).
+    apply wbind_inv in H as (r & s5 & c5 & cs5 & E5 & H & ->). apply up_inv in E5 as [E5 ->].
+    assert (HI1 : sh_idx (shp s1)) by (exact (WFx2_idx _ _ HW)).
+    pose proof (pk_route_of cf i c s1 r s5 HI1 I E5) as Hs5.
+    assert (HN1 : NoInt s1) by exact HN.
+    destruct (cn_route_of cf i c s1 r s5 HN1 E5) as [N5 B5].
+    apply wbind_inv in H as (a6 & s6 & c6 & cs6 & E6 & H & ->). apply up_inv in E6 as [E6 ->].
+    unfold put_ind, modify in E6. injection E6 as <- <-.
+    destruct (spawn_spec s s5 (new_ind i c p0 r) HW) as [W6 _]; [rewrite Hs5; reflexivity|reflexivity|].
+    change (i_id (new_ind i c p0 r)) with i in W6.
+    set (s6 := s5 <| inds := put_ind_l (new_ind i c p0 r) (inds s5) |>) in *.
+    assert (T : hoB bad KT [] [i] [] z0 (release_individualW cf j i ;;~ batch_loopW cf n j c p0))
+      by (eapply B_bind_z; [apply hb_release_individual|intros _; apply IH]).
+    destruct (T s6 a s' cs6 I (fun i0 b0 (H0 : In (i0, b0) []) => match H0 with end) W6 N5 H) as (A & B & D).
+    split; [exact A|]. split; [exact B|]. intros j0. cbn [app]. specialize (D j0).
+    assert (En : nsh s6 = nsh s) by (apply (f_equal sh_ns) in Hs5; exact Hs5).
+    rewrite (cntb_flags bad s s6 En) in D; [exact D|]. intros i' k t Hk Hin.
+    unfold at3, s6. cbn. rewrite find_put_l. change (i_id (new_ind i c p0 r)) with i.
+    destruct (Z.eqb_spec i i') as [<-|Hne]; [|exact (B5 i')].
+    exfalso. apply (WFsh_fresh _ HW). destruct HW as (_ & _ & _ & _ & HQ). eapply Permutation_in; [symmetry; exact HQ|].
+    apply in_or_app. left. unfold qids. apply in_concat. exists (qof t). split; [|exact Hin].
+    change (fun t0 : Z * Z * list (list Z) => concat (snd t0)) with qof. apply in_map. eapply nth_error_In. exact Hk.
+  Qed.
+  Lemma hb_arrival_have_event : B0 [] [] (arrival_have_eventW cf).
+  Proof. unfold arrival_have_eventW. hb using (apply hb_batch_loop). Qed.
+  (* ---------- class change while waiting ---------- *)
+  Lemma hb_cc_tail j i nc' pc0 b0 fl : hoB bad (inq i j) [(i, (nc', pc0, b0))] fl fl (rmv j (nc', pc0, b0))
+    (emit (Chg j pc0 nc') ;;~ up (upd_ind i (fun y => y <| i_pcls := nc' |> <| i_pprio := i_prio y |>) ;;; decide_class_change cf j i)).
+  Proof.
+    eapply B_ext; [eapply B_emit_bind with (d2 := rmv j (nc', pc0, b0))|].
+    - eapply hoB_eq; [intros s; symmetry; apply CP.up_seq_upd_ind|].
+      apply B_get_ind_bind2; intros y Hy Heq.
+      assert (Ht : tr3 y = (nc', pc0, b0)) by (apply Heq; left; reflexivity).
+      eapply B_ext; [eapply B_put_ind_q_bind with (b0 := (nc', pc0, b0)) (j := j)|].
+      + right. left. f_equal. cbn. symmetry. exact Hy.
+      + intros sh [Hq Hoki]. split; [exact Hoki|]. destruct Hq as (t & Ht' & Hin). exists t. split; [exact Ht'|]. cbn. rewrite Hy. exact Hin.
+      + apply B_up; [solve [pka]|solve [cna]].
+      + intros j0. unfold tr3 in Ht. injection Ht as Hc Hp Hb. unfold rmv, z0, bad. cbn. rewrite Hc, Z.eqb_refl, andb_false_r. cbn [bz]. ifs; lia.
+    - intros j0. unfold catb, cdb. ifs; lia.
+  Qed.
+  Lemma hb_ccww_ev j s nd a s' cs : WFx2 [] s -> NoInt s -> nthZ (nodes s) (j - 1) = Some nd ->
+    (forall i, hd_error (n_next_inds nd) = Some i -> In i (all_individuals nd)) ->
+    (forall nc, nthZ (cf_nodes cf) (j - 1) = Some nc -> nc_preempt nc = 0) ->
+    change_customer_class_while_waitingW cf j s = Ok (a, s', cs) ->
+    WFx2 [] s' /\ NoInt s' /\ forall j0, cntb bad s' j0 - netb bad j0 cs <= cntb bad s j0.
+  Proof.
+    intros HW HN Hnd HQ Hnp H. unfold change_customer_class_while_waitingW in H.
+    apply wbind_inv in H as (nd' & s1 & c1 & cs1 & E1 & H & ->). apply up_inv in E1 as [E1 ->].
+    apply get_node_spec in E1 as (-> & _ & Hnd'). rewrite Hnd in Hnd'. injection Hnd' as <-. cbn [app].
+    apply wbind_inv in H as (i & s2 & c2 & cs2 & E2 & H & ->). apply up_inv in E2 as [E2 ->]. cbn [app].
+    assert (Hi : hd_error (n_next_inds nd) = Some i).
+    { destruct (hd_error (n_next_inds nd)); [unfold lift, ret in E2; injection E2 as -> _; reflexivity|discriminate E2]. }
+    apply CP.lift_state in E2. rewrite E2 in H. clear E2 s2.
+    apply wbind_inv in H as (x & s3 & c3 & cs3 & E3 & H & ->). apply up_inv in E3 as [E3 ->]. cbn [app].
+    apply get_ind_some in E3 as [Es3 Hx]. rewrite Es3 in H. clear Es3 s3.
+    apply wbind_inv in H as (nc' & s4 & c4 & cs4 & E4 & H & ->). apply up_inv in E4 as [E4 ->]. cbn [app].
+    apply CP.lift_state in E4. rewrite E4 in H. clear E4 s4.
+    apply wbind_inv in H as (p' & s4b & c4b & cs4b & E4 & H & ->). apply up_inv in E4 as [E4 ->]. cbn [app].
+    apply CP.lift_state in E4. rewrite E4 in H. clear E4 s4b.
+    apply wbind_inv in H as (u5 & s5 & c5 & cs5 & E5 & H & ->). apply up_inv in E5 as [E5 ->]. cbn [app].
+    unfold put_ind, modify in E5. injection E5 as _ <-.
+    set (x1 := x <| i_cls := nc' |> <| i_prio := p' |>) in *.
+    set (s5 := s <| inds := put_ind_l x1 (inds s) |>) in *.
+    pose proof (Conserve2.find_ind_id _ _ _ Hx) as Hxi.
+    assert (Es5 : shp s5 = shp s).
+    { unfold shp, s5. cbn. f_equal. apply put_ind_l_ids_in. change (i_id x1) with (i_id x). rewrite Hxi. exact (Conserve2.find_ind_In _ _ _ Hx). }
+    assert (A5 : forall i', at3 s5 i' = if i =? i' then Some (tr3 x1) else at3 s i').
+    { intros i'. unfold at3, s5. cbn. rewrite find_put_l. change (i_id x1) with (i_id x). rewrite Hxi. destruct (i =? i'); reflexivity. }
+    assert (W5 : WFx2 [] s5) by (eapply WFx2_shape; [exact Es5|exact HW]).
+    assert (N5 : NoInt s5) by exact HN.
+    assert (Hq00 : inq i j (shp s)).
+    { exists (nshape nd). split; [cbn [shp sh_ns]; rewrite nthZ_map, Hnd; reflexivity|exact (HQ i Hi)]. }
+    assert (D5 : forall j0, cntb bad s5 j0 <= cntb bad s j0 + (if j0 =? j then bz (bad (tr3 x1)) - bz (bad (tr3 x)) else 0)).
+    { assert (Hrun : (wbind (up (put_ind x1)) (fun _ => wret tt)) s = Ok (tt, s5, [])) by reflexivity.
+      assert (T : hoB bad (fun sh => oki sh x1 /\ inq i j sh) [(i_id x1, tr3 x)] [] []
+                    (fun j0 => z0 j0 + (if j0 =? j then bz (bad (tr3 x1)) - bz (bad (tr3 x)) else 0)) (wbind (up (put_ind x1)) (fun _ => wret tt))).
+      { eapply B_put_ind_q_bind with (b0 := tr3 x) (j := j); [left; reflexivity| |apply B_wret].
+        intros sh [Ho Hq]. split; [exact Ho|]. destruct Hq as (t & Ht & Hin). exists t. split; [exact Ht|]. change (i_id x1) with (i_id x). rewrite Hxi. exact Hin. }
+      assert (Hoki : oki (shp s) x1).
+      { unfold oki. cbn [shp sh_is]. change (i_id x1) with (i_id x). rewrite Hxi. exact (Conserve2.find_ind_In _ _ _ Hx). }
+      assert (HL0 : Lok [(i_id x1, tr3 x)] s).
+      { intros i0 b0 [Hq|[]]. injection Hq as <- <-. change (i_id x1) with (i_id x). rewrite Hxi. unfold at3. rewrite Hx. reflexivity. }
+      destruct (T s tt s5 [] (conj Hoki Hq00) HL0 HW HN Hrun) as (_ & _ & D).
+      intros j0. specialize (D j0). unfold netb, z0 in D. cbn in D. lia. }
+    destruct (get_node_okn j s nd (WFx2_idx _ _ HW) Hnd) as [Hidn Hokn].
+    assert (Hq0 : inq i j (shp s5)).
+    { rewrite Es5. exists (nshape nd). split; [cbn [shp sh_ns]; rewrite nthZ_map, Hnd; reflexivity|exact (HQ i Hi)]. }
+    apply wbind_inv in H as (u6 & s6 & c6 & cs6 & E6 & H & ->).
+    assert (M6 : WFx2 [] s6 /\ NoInt s6 /\ (forall j0, cntb bad s6 j0 - netb bad j0 c6 <= cntb bad s5 j0) /\ (forall i', at3 s6 i' = at3 s5 i') /\ inq i j (shp s6)).
+    { destruct (negb (p' =? i_pprio x)).
+      2:{ unfold wret in E6. injection E6 as _ <- <-. split; [exact W5|]. split; [exact N5|]. split; [intros j0; unfold netb; cbn; lia|]. split; [reflexivity|exact Hq0]. }
+      apply wbind_inv in E6 as (q & s7 & c7 & cs7 & E7 & E6 & ->). apply up_inv in E7 as [E7 ->]. cbn [app] in *.
+      pose proof E7 as Hq. apply CP.lift_state in E7. rewrite E7 in E6, Hq. clear E7 s7.
+      apply wbind_inv in E6 as (q' & s7b & c7b & cs7b & E7 & E6 & ->). apply up_inv in E7 as [E7 ->]. cbn [app] in *.
+      pose proof E7 as Hq'. apply CP.lift_state in E7. rewrite E7 in E6, Hq'. clear E7 s7b.
+      cbv zeta in E6.
+      apply wbind_inv in E6 as (qn & s7c & c7c & cs7c & E7 & E6 & ->). apply up_inv in E7 as [E7 ->]. cbn [app] in *.
+      pose proof E7 as Hqn. apply CP.lift_state in E7. rewrite E7 in E6, Hqn. clear E7 s7c.
+      assert (Lq : nthZ (n_queues nd) (i_pprio x) = Some q) by (destruct (nthZ (n_queues nd) (i_pprio x)); [unfold lift, ret in Hq; injection Hq as -> ; reflexivity|discriminate Hq]).
+      assert (Lq' : remove_first i q = Some q') by (destruct (remove_first i q); [unfold lift, ret in Hq'; injection Hq' as -> ; reflexivity|discriminate Hq']).
+      assert (Lqn : nthZ (updZ (n_queues nd) (i_pprio x) q') p' = Some qn).
+      { destruct (nthZ (updZ (n_queues nd) (i_pprio x) q') p'); [unfold lift, ret in Hqn; injection Hqn as -> ; reflexivity|discriminate Hqn]. }
+      clear Hq Hq' Hqn.
+      apply wbind_inv in E6 as (u8 & s8 & c8 & cs8 & E8 & E6 & ->).
+      set (nd2 := nd <| n_queues := updZ (updZ (n_queues nd) (i_pprio x) q') p' (qn ++ [i]) |>) in *.
+      assert (HS : forall sh, okn sh nd -> exists nd0, okn sh nd0 /\ n_id nd2 = n_id nd0 /\ n_pop nd2 = n_pop nd0 /\
+                                Permutation (concat (n_queues nd2)) (concat (n_queues nd0))).
+      { intros sh Hok. exists nd. split; [exact Hok|]. split; [reflexivity|]. split; [reflexivity|]. cbn.
+        destruct (nthZ_nat _ _ _ Lq) as (kp & Hkp & Hqk). rewrite Hkp, updZ_nat in *.
+        destruct (nthZ_nat _ _ _ Lqn) as (kn & Hkn & Hqnk). rewrite Hkn, updZ_nat.
+        rewrite (concat_upd_add _ _ _ (qn ++ [i]) i Hqnk); [|rewrite Permutation_app_comm; reflexivity].
+        eapply concat_upd_rm; [exact Hqk|]. apply remove_first_perm. exact Lq'. }
+      assert (Hok5 : okn (shp s5) nd) by (rewrite Es5; exact Hokn).
+      destruct (B_put_mv bad (fun sh => okn sh nd) [] [] nd2 (NoInt_nth _ _ _ HN Hnd) HS s5 u8 s8 c8 Hok5
+                  (fun i0 b0 (H0 : In (i0, b0) []) => match H0 with end) W5 N5 E8) as (W8 & N8 & D8).
+      apply up_inv in E8 as [E8 ->]. unfold put_node, modify in E8. injection E8 as _ Es8.
+      assert (Hq8 : inq i j (shp s8)).
+      { rewrite <- Es8. exists (nshape nd2). split.
+        - change (nthZ (map nshape (updZ (nodes s) (n_id nd - 1) nd2)) (j - 1) = Some (nshape nd2)).
+          rewrite tk_updZ_map, Hidn. eapply tk_nthZ_updZ_eq. rewrite nthZ_map, Hnd. reflexivity.
+        - change (In i (concat (updZ (updZ (n_queues nd) (i_pprio x) q') p' (qn ++ [i])))).
+          apply in_concat. exists (qn ++ [i]). split; [|apply in_or_app; right; left; reflexivity].
+          eapply tk_nthZ_In. eapply tk_nthZ_updZ_eq. exact Lqn. }
+      assert (B8 : forall i', at3 s8 i' = at3 s5 i') by (intros i'; rewrite <- Es8; reflexivity).
+      assert (D8' : forall j0, cntb bad s8 j0 - netb bad j0 [] <= cntb bad s5 j0) by (intros j0; specialize (D8 j0); unfold z0 in D8; lia).
+      destruct (negb (nd_inf nd) && (0 <? numo (n_c nd))).
+      2:{ unfold wret in E6. injection E6 as _ <- <-. split; [exact W8|]. split; [exact N8|]. split; [intros j0; cbn [app]; apply D8'|]. split; [exact B8|exact Hq8]. }
+      apply wbind_inv in E6 as (v & s9 & c9 & cs9 & E9 & E6 & ->). apply up_inv in E9 as [E9 ->]. cbn [app] in *.
+      destruct (CP.preempt_victim_none cf j i s8 v s9 Hnp E9) as [-> ->].
+      unfold wret in E6. injection E6 as _ <- <-. split; [exact W8|]. split; [exact N8|]. split; [intros j0; cbn [app]; apply D8'|]. split; [exact B8|exact Hq8]. }
+    destruct M6 as (W6 & N6 & D6 & B6 & Hq6).
+    assert (HL6 : Lok [(i, (nc', i_pcls x, i_blocked x))] s6).
+    { intros i0 b0 [Hq|[]]. injection Hq as <- <-. rewrite B6, A5, Z.eqb_refl. reflexivity. }
+    destruct (hb_cc_tail j i nc' (i_pcls x) (i_blocked x) [] s6 a s' cs6 Hq6 HL6 W6 N6 H) as (A & B & D).
+    split; [exact A|split; [exact B|]]. intros j0. rewrite netb_app. specialize (D j0). specialize (D6 j0). specialize (D5 j0).
+    change (tr3 x1) with (nc', i_pcls x, i_blocked x) in D5. unfold rmv in D.
+    destruct (j0 =? j); [|lia]. unfold bz in *. destruct (bad (nc', i_pcls x, i_blocked x)); destruct (bad (tr3 x)); lia.
+  Qed.
+
+
+  (* the candidates of an end of service that have a record are customers of the node *)
+  Definition NextQ (s : sim) : Prop :=
+    forall j nd, nthZ (nodes s) (j - 1) = Some nd -> n_next_type nd = 0 -> forall i x, In i (n_next_inds nd) -> find_ind i (inds s) = Some x -> In i (all_individuals nd).
+
+  Lemma hb_node_have_event j s a s' cs : NextQ s -> CP.CandQ cf s -> WFx2 [] s -> NoInt s -> node_have_eventW cf j s = Ok (a, s', cs) ->
+    WFx2 [] s' /\ NoInt s' /\ forall j0, cntb bad s' j0 - netb bad j0 cs <= cntb bad s j0.
+  Proof.
+    intros HX HN3 HW HN H. unfold node_have_eventW in H.
+    apply wbind_inv in H as (nd & s1 & c1 & cs1 & E1 & H & ->). apply up_inv in E1 as [E1 ->].
+    apply get_node_spec in E1 as (-> & Hj & Hnd). cbv zeta in H. cbn [app].
+    assert (Fin : forall (m : W unit), hoB bad KT [] [] [] z0 m -> m s = Ok (a, s', cs1) ->
+                  WFx2 [] s' /\ NoInt s' /\ forall j0, cntb bad s' j0 - netb bad j0 cs1 <= cntb bad s j0).
+    { intros m Hm E. destruct (Hm s a s' cs1 I (fun i0 b0 (H0 : In (i0, b0) []) => match H0 with end) HW HN E) as (A & B & D).
+      split; [exact A|split; [exact B|]]. intros j0. specialize (D j0). unfold z0 in D. lia. }
+    destruct (n_next_type nd =? 0) eqn:E0.
+    { apply Z.eqb_eq in E0. unfold finish_serviceW in H.
+      apply wbind_inv in H as (nd' & s2 & c2 & cs2 & E2 & H & ->). apply up_inv in E2 as [E2 ->].
+      apply get_node_spec in E2 as (-> & _ & Hnd'). rewrite Hnd in Hnd'. injection Hnd' as <-.
+      apply wbind_inv in H as (i & s3 & c3 & cs3 & E3 & H & ->). apply up_inv in E3 as [E3 ->]. cbn [app].
+      pose proof (decide_between_In _ _ _ _ E3) as Hin.
+      destruct (frame_step _ [] s i s3 (pk_decide_between _) (cn_decide_between _) HW HN E3) as (Es & W3 & N3 & B3).
+      destruct (fs_tail_rec _ _ _ _ _ _ _ _ H) as [x3 Hx3]. rewrite (CP.decide_between_inds _ _ _ _ E3) in Hx3.
+      assert (HK : inq i j (shp s3)).
+      { rewrite Es. exists (nshape nd). split; [cbn [shp sh_ns]; rewrite nthZ_map, Hnd; reflexivity|exact (HX j nd Hnd E0 i x3 Hin Hx3)]. }
+      destruct (hb_fs_tail cf j nd i [] s3 a s' cs3 HK (fun i0 b0 (H0 : In (i0, b0) []) => match H0 with end) W3 N3 H) as (A & B & D).
+      split; [exact A|split; [exact B|]]. intros j0. specialize (D j0). unfold z0 in D.
+      rewrite (cntb_frame bad s s3 (f_equal sh_ns Es) B3) in D. lia. }
+    destruct (n_next_type nd =? 1) eqn:E1; [exact (Fin _ (hb_change_shift cf Hscope j []) H)|].
+    destruct (n_next_type nd =? 2) eqn:E2.
+    { unfold renegeW in H.
+      apply wbind_inv in H as (t & s2 & c2 & cs2 & E2' & H & ->). apply up_inv in E2' as [E2' ->].
+      unfold tnow, gets in E2'. injection E2' as <- <-.
+      apply wbind_inv in H as (nd' & s2b & c2b & cs2b & E2b & H & ->). apply up_inv in E2b as [E2b ->].
+      apply get_node_spec in E2b as (-> & _ & Hnd'). rewrite Hnd in Hnd'. injection Hnd' as <-.
+      apply wbind_inv in H as (i & s3 & c3 & cs3 & E3 & H & ->). apply up_inv in E3 as [E3 ->]. cbn [app].
+      destruct (frame_step _ [] s i s3 (pk_decide_between _) (cn_decide_between _) HW HN E3) as (Es & W3 & N3 & B3).
+      destruct (hb_ren_tail cf j (now s) i [] s3 a s' cs3 I (fun i0 b0 (H0 : In (i0, b0) []) => match H0 with end) W3 N3 H) as (A & B & D).
+      split; [exact A|split; [exact B|]]. intros j0. specialize (D j0). unfold z0 in D.
+      rewrite (cntb_frame bad s s3 (f_equal sh_ns Es) B3) in D. lia. }
+    destruct (n_next_type nd =? 3) eqn:E3; [apply Z.eqb_eq in E3; destruct (HN3 j nd Hnd E3) as [Q1 Q2]; exact (hb_ccww_ev j s nd a s' cs1 HW HN Hnd Q1 Q2 H)|].
+    destruct (n_next_type nd =? 4) eqn:E4; [exact (Fin _ (hb_slotted_service cf Hscope j []) H)|].
+    exact (Fin _ (B_wret bad KT [] [] tt) H).
+  Qed.
+
+  Lemma hb_event_step s a s' cs : NextQ s -> CP.CandQ cf s -> WFx2 [] s -> NoInt s -> event_stepW cf s = Ok (a, s', cs) ->
+    WFx2 [] s' /\ NoInt s' /\ forall j0, cntb bad s' j0 - netb bad j0 cs <= cntb bad s j0.
+  Proof.
+    intros HX HN3 HW HN H. unfold event_stepW in H.
+    apply wbind_inv in H as (a1 & s1 & c1 & cs1 & E1 & H & ->). apply up_inv in E1 as [E1 ->].
+    unfold modify in E1. injection E1 as <- <-. set (s1 := s <| log := [] |>) in *.
+    apply wbind_inv in H as (k & s2 & c2 & cs2 & E2 & H & ->). apply up_inv in E2 as [E2 ->].
+    unfold gets in E2. injection E2 as <- <-. cbn [app].
+    apply wbind_inv in H as (a3 & s3 & c3 & cs3 & E3 & H & ->).
+    assert (M3 : WFx2 [] s3 /\ NoInt s3 /\ forall j0, cntb bad s3 j0 - netb bad j0 c3 <= cntb bad s j0).
+    { change (next_active s1) with (next_active s) in *. destruct (next_active s =? 0).
+      - destruct (hb_arrival_have_event s1 a3 s3 c3 I (fun i0 b0 (H0 : In (i0, b0) []) => match H0 with end) HW HN E3) as (A & B & D).
+        split; [exact A|split; [exact B|]]. intros j0. specialize (D j0). unfold z0 in D. change (cntb bad s1 j0) with (cntb bad s j0) in D. lia.
+      - exact (hb_node_have_event (next_active s) s1 a3 s3 c3 HX HN3 HW HN E3). }
+    destruct M3 as (W3 & N3 & D3).
+    apply up_inv in H as [H ->]. rewrite app_nil_r.
+    assert (Hp : presK KT (ns <- gets nodes ;; update_all cf (map n_id ns) ;;; find_next_active_node)) by pka.
+    assert (Hc : calmN (ns <- gets nodes ;; update_all cf (map n_id ns) ;;; find_next_active_node)) by cna.
+    destruct (frame_step _ [] s3 a s' Hp Hc W3 N3 H) as (Es & W4 & N4 & B4).
+    split; [exact W4|split; [exact N4|]]. intros j0. rewrite (cntb_frame bad s3 s' (f_equal sh_ns Es) B4). apply D3.
+  Qed.
+End BWalk3.
+End CT.
+
+(* ---------- B.5  TInvS is kept by every event; the theorems for NodeClassMatrix ---------- *)
+(* what remains assumed when the configuration has class-change times: the candidate of a class change while waiting is a
+   customer of the node (vacuous when cf_dyn cf = false) *)
+Definition CandQ1 (s : sim) : Prop :=
+  forall j nd, nthZ (nodes s) (j - 1) = Some nd -> n_next_type nd = 3 -> forall i, hd_error (n_next_inds nd) = Some i -> In i (all_individuals nd).
+Definition candq1_b (s : sim) : bool :=
+  forallb (fun nd => negb (n_next_type nd =? 3) || match hd_error (n_next_inds nd) with Some i => memZ i (all_individuals nd) | None => true end) (nodes s).
+Theorem candq1_b_sound s : candq1_b s = true -> CandQ1 s.
+Proof.
+  unfold candq1_b. rewrite forallb_forall. intros H j nd Hnd E3 i Hi. specialize (H nd (tk_nthZ_In _ _ _ Hnd)).
+  rewrite E3 in H. cbn in H. rewrite Hi in H. apply memZ_In. exact H.
+Qed.
+Lemma Inv2_nodyn_candq1 cf s : Inv2 cf s -> cf_dyn cf = false -> CandQ1 s.
+Proof.
+  intros (an & h & (_ & _ & _ & _ & _ & HP)) Hd j nd Hnd E3. destruct (HP j nd Hnd) as [_ H3]. specialize (H3 E3). congruence.
+Qed.
+Lemma CandOK_of s : NextUnblW s -> TInvS s -> CandQ1 s -> CandOK s.
+Proof.
+  intros HX HT HQ j nd Hnd. split; [|exact (HQ j nd Hnd)].
+  intros E0 i x Hi Hx. destruct (proj1 (HX j nd Hnd i x Hi Hx) E0) as [Hb _]. symmetry. exact (HT i x Hx Hb).
+Qed.
+Lemma tinvs_cnt0 s : TInvS s -> forall j, CT.cntb CT.bad s j = 0.
+Proof.
+  intros HT j. unfold CT.cntb. destruct (nthZ (nsh s) (j - 1)) as [t|]; [|reflexivity].
+  assert (E : filter (fun i => CT.pz3 CT.bad (CT.at3 s i)) (qof t) = []); [|rewrite E; reflexivity].
+  assert (G : forall l, filter (fun i => CT.pz3 CT.bad (CT.at3 s i)) l = []); [|apply G].
+  induction l as [|i l IH]; [reflexivity|]. cbn [filter]. rewrite IH.
+  unfold CT.pz3, CT.at3. destruct (find_ind i (inds s)) as [x|] eqn:Ex; cbn [option_map]; [|reflexivity].
+  unfold CT.bad, CT.tr3. cbn [fst snd]. destruct (i_blocked x) eqn:Eb; [reflexivity|]. rewrite (HT i x Ex Eb), Z.eqb_refl. reflexivity.
+Qed.
+Lemma cnt0_tinvs s : WFx2 [] s -> (forall j, CT.cntb CT.bad s j <= 0) -> TInvS s.
+Proof.
+  intros HW H i x Hx Hb. destruct (in_some_queue s i x HW Hx) as (k & nd & Hk & Hin).
+  specialize (H k). unfold CT.cntb, nsh in H. rewrite nthZ_map, Hk in H. cbn [option_map] in H. unfold qof, nshape in H. cbn [snd] in H.
+  fold (all_individuals nd) in H.
+  destruct (CT.pz3 CT.bad (CT.at3 s i)) eqn:Ef.
+  - exfalso. assert (Hf : In i (filter (fun i0 => CT.pz3 CT.bad (CT.at3 s i0)) (all_individuals nd))) by (apply filter_In; auto).
+    destruct (filter (fun i0 => CT.pz3 CT.bad (CT.at3 s i0)) (all_individuals nd)) as [|h t]; [destruct Hf|]. unfold zlen in H. cbn [length] in H. lia.
+  - unfold CT.pz3, CT.at3 in Ef. rewrite Hx in Ef. cbn [option_map] in Ef. unfold CT.bad, CT.tr3 in Ef. cbn [fst snd] in Ef. rewrite Hb in Ef.
+    cbn [negb andb] in Ef. apply negb_false_iff in Ef. apply Z.eqb_eq. exact Ef.
+Qed.
+Lemma CT_netb0 j cs : CT.netb CT.bad j cs = 0.
+Proof.
+  unfold CT.netb. induction cs as [|c r IH]; [reflexivity|]. cbn [map]. rewrite zsum_cons, IH. unfold CT.catb, CT.cdb. destruct (cnode c =? j); reflexivity.
+Qed.
+(* TInvS (a customer that is not blocked has previous_class = customer_class) is kept by every event in scope *)
+Theorem event_step_tinvs2 cf s s' : scope_nb cf = true -> Inv2 cf s -> CandQ1 s -> TInvS s -> event_step cf s = Ok (tt, s') -> TInvS s'.
+Proof.
+  intros Hsc HI HQ HT H. destruct (Inv2_facts cf s HI) as (HW & HN & HX).
+  pose proof (scope_nb_int cf Hsc) as Hsi. pose proof (event_stepW_ok cf s s' H) as HE.
+  assert (HXq : CT.NextQ s) by (intros j nd Hnd E0 i x Hi Hx; exact (proj2 (proj1 (HX j nd Hnd i x Hi Hx) E0))).
+  assert (HQ2 : CP.CandQ cf s) by (intros j nd Hnd E3; split; [exact (HQ j nd Hnd E3)|exact (Inv2_nopre3 cf s Hsc HI j nd Hnd E3)]).
+  destruct (CT.hb_event_step cf Hsi s tt s' _ HXq HQ2 HW HN HE) as (W1 & _ & D).
+  apply (cnt0_tinvs s' W1). intros j. specialize (D j). rewrite CT_netb0, (tinvs_cnt0 s HT j) in D. lia.
+Qed.
+
+(* the invariant for NodeClassMatrix *)
+Definition InvB (cf : config) (s : sim) : Prop := Inv2 cf s /\ TInvS s.
+Definition invb_b (cf : config) (an : Z -> option Z) (h : list rec) (s : sim) : bool := inv2_b cf an h s && tinvs_b s.
+Theorem invb_b_sound cf an h s : invb_b cf an h s = true -> InvB cf s.
+Proof. unfold invb_b. intros H. apply andb_true_iff in H as [H1 H2]. split; [eapply inv2_b_sound; eauto|apply tinvs_b_sound; exact H2]. Qed.
+
+(* one event.  _partial: CandQ1 (the candidate of a class change while waiting is a customer of its node) is assumed, not shown
+   invariant; it is vacuous without class-change times (event_step_class_matrix2 below) *)
+Theorem event_step_class_matrix2_partial cf s s' : scope_nb cf = true -> InvB cf s -> CandQ1 s -> event_step cf s = Ok (tt, s') ->
+  InvB cf s' /\ forall c j, cntc c s' j - netc c j (calls_event_step cf s) = cntc c s j.
+Proof.
+  intros Hsc [HI HT] HQ H. destruct (Inv2_facts cf s HI) as (_ & _ & HX).
+  destruct (event_step_class_counts2_candok cf s s' Hsc HI (CandOK_of s HX HT HQ) H) as [I1 D].
+  split; [split; [exact I1|exact (event_step_tinvs2 cf s s' Hsc HI HQ HT H)]|exact D].
+Qed.
+Theorem event_step_class_matrix2 cf s s' : scope_nb cf = true -> cf_dyn cf = false -> InvB cf s -> event_step cf s = Ok (tt, s') ->
+  InvB cf s' /\ forall c j, cntc c s' j - netc c j (calls_event_step cf s) = cntc c s j.
+Proof. intros Hsc Hd HI H. exact (event_step_class_matrix2_partial cf s s' Hsc HI (Inv2_nodyn_candq1 cf s (proj1 HI) Hd) H). Qed.
+
+Fixpoint CandQ1_run (cf : config) (s : sim) (ds : list draws) : Prop :=
+  match ds with
+  | [] => True
+  | d :: r => CandQ1 (s <| dr := d |>) /\ match event_step cf (s <| dr := d |>) with Ok (_, s1) => CandQ1_run cf s1 r | _ => True end
+  end.
+Fixpoint candq1_run_b (cf : config) (s : sim) (ds : list draws) : bool :=
+  match ds with
+  | [] => true
+  | d :: r => candq1_b (s <| dr := d |>) && match event_step cf (s <| dr := d |>) with Ok (_, s1) => candq1_run_b cf s1 r | _ => true end
+  end.
+Theorem candq1_run_b_sound cf : forall ds s, candq1_run_b cf s ds = true -> CandQ1_run cf s ds.
+Proof.
+  induction ds as [|d r IH]; intros s H; cbn [candq1_run_b CandQ1_run] in *; [exact I|].
+  apply andb_true_iff in H as [H1 H2]. split; [apply candq1_b_sound; exact H1|].
+  destruct (event_step cf (s <| dr := d |>)) as [[u s1]| |]; [apply IH; exact H2|exact I|exact I].
+Qed.
+Lemma InvB_dr cf s d : InvB cf s -> InvB cf (s <| dr := d |>).
+Proof. intros [HI HT]. split; [apply Inv2_dr; exact HI|exact HT]. Qed.
+(* any number of events: every entry of the matrix moves exactly as the calls say; whenever the tracker, started on a matrix m0,
+   does not raise, every entry that was the true count before the run is the true count after the run *)
+Theorem run_many_class_matrix2_partial cf : scope_nb cf = true -> forall ds s s', InvB cf s -> CandQ1_run cf s ds -> run_many cf s ds = Ok s' ->
+  InvB cf s' /\ (forall c j, cntc c s' j - netc c j (calls_many cf s ds) = cntc c s j) /\
+  forall m0 m', orun cm_step (calls_many cf s ds) m0 = Some m' -> forall j c, entry m0 j c = cntc c s j -> entry m' j c = cntc c s' j.
+Proof.
+  intros Hsc.
+  assert (G : forall ds s s', InvB cf s -> CandQ1_run cf s ds -> run_many cf s ds = Ok s' ->
+              InvB cf s' /\ forall c j, cntc c s' j - netc c j (calls_many cf s ds) = cntc c s j).
+  { induction ds as [|d r IH]; intros s s' HI HC H; cbn [run_many calls_many CandQ1_run] in *.
+    - injection H as <-. split; [exact HI|]. intros c j. unfold netc, CP.netb. cbn. lia.
+    - destruct HC as [HC0 HCr]. destruct (event_step cf (s <| dr := d |>)) as [[[] s1]| |] eqn:E; try discriminate.
+      destruct (event_step_class_matrix2_partial cf _ _ Hsc (InvB_dr cf s d HI) HC0 E) as (I1 & T1).
+      destruct (IH _ _ I1 HCr H) as (I2 & T2'). split; [exact I2|].
+      intros c j. rewrite netc_app. specialize (T1 c j). specialize (T2' c j). change (cntc c (s <| dr := d |>) j) with (cntc c s j) in T1. lia. }
+  intros ds s s' HI HC H. destruct (G ds s s' HI HC H) as [I1 D]. split; [exact I1|]. split; [exact D|].
+  intros m0 m' Hm j c E0. rewrite (cm_run_entry _ _ _ Hm j c), E0. specialize (D c j). lia.
+Qed.
+Lemma nodyn_candq1_run cf : scope_nb cf = true -> cf_dyn cf = false -> forall ds s, InvB cf s -> CandQ1_run cf s ds.
+Proof.
+  intros Hsc Hd. induction ds as [|d r IH]; intros s HI; cbn [CandQ1_run]; [exact I|].
+  pose proof (InvB_dr cf s d HI) as HI0. pose proof (Inv2_nodyn_candq1 cf _ (proj1 HI0) Hd) as HQ. split; [exact HQ|].
+  destruct (event_step cf (s <| dr := d |>)) as [[[] s1]| |] eqn:E; [|exact I|exact I].
+  apply IH. exact (proj1 (event_step_class_matrix2_partial cf _ _ Hsc HI0 HQ E)).
+Qed.
+(* without class-change times: no hypothesis along the run *)
+Theorem run_many_class_matrix2 cf ds s s' : scope_nb cf = true -> cf_dyn cf = false -> InvB cf s -> run_many cf s ds = Ok s' ->
+  InvB cf s' /\ (forall c j, cntc c s' j - netc c j (calls_many cf s ds) = cntc c s j) /\
+  forall m0 m', orun cm_step (calls_many cf s ds) m0 = Some m' -> forall j c, entry m0 j c = cntc c s j -> entry m' j c = cntc c s' j.
+Proof. intros Hsc Hd HI H. exact (run_many_class_matrix2_partial cf Hsc ds s s' HI (nodyn_candq1_run cf Hsc Hd ds s HI) H). Qed.
+(* in the words of TrackerInc2.cm_true: under the invariant its entries are these counts *)
+Theorem class_matrix_means cf k s j c : InvB cf s -> 0 <= c < Z.of_nat k -> nthZ (nodes s) (j - 1) <> None -> entry (cm_true k s) j c = cntc c s j.
+Proof. intros [_ HT]. apply cm_true_entry. exact HT. Qed.
+
+(* ---------- examples for the final theorems ---------- *)
+(* the network cm_cf above (class-change matrix, class change while waiting, blocking, reneging): 60 events by the theorem;
+   CandQ1 is checked along the run by computation *)
+Example cm_run60_inv : exists s', run_many cm_cf cm_s0 (repeat cm_d 60) = Ok s' /\ InvB cm_cf s' /\
+  forall c j, cntc c s' j - netc c j (calls_many cm_cf cm_s0 (repeat cm_d 60)) = cntc c cm_s0 j.
+Proof.
+  destruct (run_many cm_cf cm_s0 (repeat cm_d 60)) as [s'| |] eqn:E; [|vm_compute in E; discriminate|vm_compute in E; discriminate].
+  exists s'. split; [reflexivity|].
+  assert (H1 : scope_nb cm_cf = true) by (vm_compute; reflexivity).
+  assert (H2 : invb_b cm_cf nb_an0 [] cm_s0 = true) by (vm_compute; reflexivity).
+  assert (H3 : candq1_run_b cm_cf cm_s0 (repeat cm_d 60) = true) by (vm_compute; reflexivity).
+  destruct (run_many_class_matrix2_partial cm_cf H1 _ _ _ (invb_b_sound _ _ _ _ H2) (candq1_run_b_sound _ _ _ H3) E) as (A & B & _). auto.
+Qed.
+(* the same network without class-change times: the full theorem, no hypothesis along the run *)
+Definition cm2_cf : config :=
+  mkCfg 2 (cf_nodes cm_cf) [0; 0] 1 None (cf_routing cm_cf) (cf_baulk cm_cf) false [ [false; false]; [false; false] ].
+Example cm2_run60 : exists s' m', run_many cm2_cf cm_s0 (repeat cm_d 60) = Ok s' /\ InvB cm2_cf s' /\
+  orun cm_step (calls_many cm2_cf cm_s0 (repeat cm_d 60)) (cm_true 2 cm_s0) = Some m' /\
+  forall j c, 1 <= j <= 3 -> 0 <= c < 2 -> entry m' j c = entry (cm_true 2 s') j c.
+Proof.
+  destruct (run_many cm2_cf cm_s0 (repeat cm_d 60)) as [s'| |] eqn:E; [|vm_compute in E; discriminate|vm_compute in E; discriminate].
+  destruct (orun cm_step (calls_many cm2_cf cm_s0 (repeat cm_d 60)) (cm_true 2 cm_s0)) as [m'|] eqn:Em; [|vm_compute in Em; discriminate].
+  exists s', m'. split; [reflexivity|].
+  assert (H1 : scope_nb cm2_cf = true) by (vm_compute; reflexivity).
+  assert (H2 : invb_b cm2_cf nb_an0 [] cm_s0 = true) by (vm_compute; reflexivity).
+  pose proof (invb_b_sound _ _ _ _ H2) as HI.
+  destruct (run_many_class_matrix2 cm2_cf _ _ _ H1 eq_refl HI E) as (A & _ & C).
+  split; [exact A|]. split; [reflexivity|]. intros j c Hj Hc.
+  assert (Hn : forall s0 : sim, length (nodes s0) = 3%nat -> nthZ (nodes s0) (j - 1) <> None).
+  { intros s0 Hl. destruct (tk_nthZ_some (nodes s0) (j - 1)) as [nd Hnd]; [rewrite Hl; lia|congruence]. }
+  assert (Hl' : length (nodes s') = 3%nat) by (clear -E; vm_compute in E; injection E as <-; reflexivity).
+  rewrite (class_matrix_means cm2_cf 2 s' j c A); [|lia|exact (Hn s' Hl')].
+  apply (C _ _ Em). apply (class_matrix_means cm2_cf 2 cm_s0 j c HI); [lia|exact (Hn cm_s0 eq_refl)].
+Qed.
+
+(* ---------- outside the scope: NodeClassMatrix in the region of F-02b (new as a tracker finding; TrackerInc2 has the F-02a one).
+   The F-02b network of TrackerInc2 (pre-emptive `resume` schedule at node 1, node 2 has room for one customer) with two classes
+   and a class-change matrix at node 1 (class 0 becomes class 1 at the end of a service).  Customers 2 and 3 (accepted under class 0)
+   finish, get customer_class 1 and are blocked; the shift change interrupts them; begin_interrupted_individuals_service clears
+   is_blocked of customer 2 WITHOUT a tracker call (node.py): it now counts under its customer_class 1, the tracker still has it
+   under class 0; it finishes again, change_customer_class overwrites previous_class with 1 (the calls Blk 1 2 2 1): whenever it is
+   released, change_state_release will subtract at class 1.  After 12 events the truth is (0, 2) and the tracker holds (2, 0). ---------- *)
+Definition b4_cf : config :=
+  mkCfg 2
+    [ mkNcfg None (Some [[0; 8]; [0; 8]]) 0 (SSched (mkSched [10; 20] [2; 1] 0 1)) 0 false [false; false] 0;
+      mkNcfg (Some 1) None 0 SFixed 0 false [false; false] 0 ]
+    [0; 0] 1 None [ RtNR [RDirect 2; RLeave]; RtNR [RDirect 2; RLeave] ] [ [None; None]; [None; None] ] false [ [false; false]; [false; false] ].
+Definition b4_s0 : sim :=
+  mkSim 0 1 (mkArr 0 0 [[Some 1; None]; [None; None]] 1 0 (Some 1)) [r4_n1; x_node 2 1 [x_srv 1] 1] [] 0 0 [] x_nd [] [[0; 0]; [0; 0]].
+Definition b4_ds : list draws := r4_ds ++ repeat (mkDraws [100] [1] [100; 100] [0; 0; 0] [] []) 3.
+Theorem class_matrix_refuted_F02b :
+  exists cf s0 ds s10,
+    wfx2_b s0 = true /\ tinvs_b s0 = true /\ scope_int cf = false /\ run_many cf s0 ds = Ok s10 /\
+    calls_many cf s0 ds = [Acc 1 0; Acc 1 0; Rel 1 2 1 0 false; Acc 2 1; Acc 1 0; Blk 1 2 3 0; Blk 1 2 2 0; Blk 1 2 2 1; Blk 1 2 2 1; Blk 1 2 3 1] /\
+    cm_true 2 s10 = [[0; 2]; [0; 1]] /\ orun cm_step (calls_many cf s0 ds) (cm_true 2 s0) = Some [[2; 0]; [0; 1]] /\
+    Tracked1 (calls_many cf s0 ds) s0 s10.
+Proof.
+  exists b4_cf, b4_s0, b4_ds.
+  destruct (run_many b4_cf b4_s0 b4_ds) as [s10| |] eqn:E; [|vm_compute in E; discriminate|vm_compute in E; discriminate].
+  exists s10. split; [vm_compute; reflexivity|]. split; [vm_compute; reflexivity|]. split; [vm_compute; reflexivity|]. split; [reflexivity|].
+  split; [vm_compute; reflexivity|].
+  assert (I0 : Idx b4_s0) by (apply idx2_b_sound; vm_compute; reflexivity).
+  split; [|split; [|exact (proj2 (run_many_trackers2 b4_cf _ _ _ I0 E))]].
+  - vm_compute in E. injection E as <-. vm_compute. reflexivity.
+  - vm_compute. reflexivity.
+Qed.
+
+Print Assumptions event_step_naive_blocking2.
+Print Assumptions run_many_naive_blocking2.
+Print Assumptions naive_blocking_never_negative.
+Print Assumptions inv2_b_sound.
+Print Assumptions nb_run60.
+Print Assumptions nb_inv12.
+Print Assumptions event_step_tinvs2.
+Print Assumptions event_step_class_matrix2_partial.
+Print Assumptions event_step_class_matrix2.
+Print Assumptions run_many_class_matrix2_partial.
+Print Assumptions run_many_class_matrix2.
+Print Assumptions run_many_class_matrix2_candok.
+Print Assumptions class_matrix_means.
+Print Assumptions invb_b_sound.
+Print Assumptions candq1_run_b_sound.
+Print Assumptions cm_run60.
+Print Assumptions cm_run60_inv.
+Print Assumptions cm2_run60.
+Print Assumptions class_matrix_refuted_F02b.
